@@ -247,13 +247,15 @@ Qed.
 
 (* an event that neither is a delivery outside the chain nor counts a restart *)
 Definition quiet (e : event) : Prop :=
-  match e with Recv _ mw _ _ => mw = true | EvRestarted _ => False | _ => True end.
-Definition mw_ok (e : event) : Prop :=
-  match e with Recv _ mw _ _ => mw = true | _ => True end.
+  match e with Recv _ mw _ _ => mw = true | EvRestarted _ => False | Escaped => False | _ => True end.
+(* [strict]: Escaped is excluded too (inside Invoke/Start/tryRestart) *)
+Definition mw_okb (strict : bool) (e : event) : Prop :=
+  match e with Recv _ mw _ _ => mw = true | Escaped => strict = false | _ => True end.
+Definition mw_ok := mw_okb false.
 
 Lemma hev_quiet t : Forall hev t -> Forall quiet t.
 Proof. apply Forall_impl. intros []; cbn; tauto. Qed.
-Lemma quiet_mw t : Forall quiet t -> Forall mw_ok t.
+Lemma quiet_mw b t : Forall quiet t -> Forall (mw_okb b) t.
 Proof. apply Forall_impl. intros []; cbn; tauto. Qed.
 Lemma quiet_rcs t : Forall quiet t -> rcs t = [].
 Proof. induction 1 as [|e t He _ IH]; [reflexivity|]. destruct e; cbn in *; try assumption. contradiction. Qed.
@@ -328,17 +330,17 @@ Qed.
 
 (* the counter relation: restarts only grows, by one per EvRestarted, whose
    arguments are consecutive, and never exceeds MaxRestarts *)
-Definition PA (c : cfg) (r : nat) (t : list event) (r' : nat) : Prop :=
-  Forall mw_ok t /\
+Definition PA (strict : bool) (c : cfg) (r : nat) (t : list event) (r' : nat) : Prop :=
+  Forall (mw_okb strict) t /\
   (r <= maxr c -> r <= r' /\ r' <= maxr c /\ rcs t = seq (S r) (r' - r)).
 
-Lemma PA_quiet c r t : Forall quiet t -> PA c r t r.
+Lemma PA_quiet {b} c r t : Forall quiet t -> PA b c r t r.
 Proof.
   intros H. split; [apply quiet_mw, H|]. intros Hr. rewrite quiet_rcs by exact H.
   rewrite Nat.sub_diag. repeat split; lia.
 Qed.
 
-Lemma PA_trans c r t1 r1 t2 r2 : PA c r t1 r1 -> PA c r1 t2 r2 -> PA c r (t1 ++ t2) r2.
+Lemma PA_trans {b} c r t1 r1 t2 r2 : PA b c r t1 r1 -> PA b c r1 t2 r2 -> PA b c r (t1 ++ t2) r2.
 Proof.
   intros [Hm1 H1] [Hm2 H2]. split; [apply Forall_app; split; assumption|].
   intros Hr. destruct (H1 Hr) as (Ha & Hb & Hc). destruct (H2 Hb) as (Hd & He & Hf).
@@ -346,16 +348,25 @@ Proof.
   replace (r2 - r) with ((r1 - r) + (r2 - r1)) by lia. rewrite seq_app. do 2 f_equal. lia.
 Qed.
 
-Lemma PA_restarted c r : r <> maxr c -> PA c r [EvRestarted (S r)] (S r).
+Lemma PA_restarted {b} c r : r <> maxr c -> PA b c r [EvRestarted (S r)] (S r).
 Proof.
   intros Hne. split; [repeat constructor|]. intros Hr. repeat split; try lia.
   replace (S r - r) with 1 by lia. reflexivity.
 Qed.
 
+Lemma PA_cons {b} c r e t r' : quiet e -> PA b c r t r' -> PA b c r (e :: t) r'.
+Proof. intros He H. apply (PA_trans c r [e] r t r'); [apply PA_quiet; repeat constructor; exact He|exact H]. Qed.
+
+Lemma PA_weaken c r t r' : PA true c r t r' -> PA false c r t r'.
+Proof. intros [H1 H2]. split; [|exact H2]. revert H1. apply Forall_impl. intros []; cbn; tauto. Qed.
+
+Lemma PA_escaped c r : PA false c r [Escaped] r.
+Proof. split; [repeat constructor|]. intros. rewrite Nat.sub_diag. repeat split; lia. Qed.
+
 Lemma invoke_start_restart_PA c : forall f,
-  (forall s msgs s' t o, invoke f c s msgs = (s', t, o) -> PA c (restarts s) t (restarts s')) /\
-  (forall s s' t o, start f c s = (s', t, o) -> PA c (restarts s) t (restarts s')) /\
-  (forall s b s' t o, try_restart f c s b = (s', t, o) -> PA c (restarts s) t (restarts s')).
+  (forall s msgs s' t o, invoke f c s msgs = (s', t, o) -> PA true c (restarts s) t (restarts s')) /\
+  (forall s s' t o, start f c s = (s', t, o) -> PA true c (restarts s) t (restarts s')) /\
+  (forall s b s' t o, try_restart f c s b = (s', t, o) -> PA true c (restarts s) t (restarts s')).
 Proof.
   induction f as [|f (IHi & IHs & IHr)].
   - split; [|split]; intros *; intros H;
@@ -371,28 +382,28 @@ Proof.
     + intros s s' t o H. rewrite start_S in H. cbv zeta in H.
       destruct (recv c (upd_inc s (S (inc s))) true LInit) as [[s1 ti] oi] eqn:Ei.
       apply recv_quiet in Ei as [Hqi (_ & Hri & _)]. cbn in Hri.
-      assert (H0 : PA c (restarts s) ([Produce (inc (upd_inc s (S (inc s))))] ++ ti) (restarts s1)).
+      assert (H0 : PA true c (restarts s) ([Produce (inc (upd_inc s (S (inc s))))] ++ ti) (restarts s1)).
       { rewrite Hri. apply PA_quiet. constructor; [exact I|exact Hqi]. }
       destruct oi.
       2:{ destruct (try_restart f c s1 internal) as [[s2 t2] o2] eqn:Et. injection H as <- <- <-.
           apply IHr in Et. exact (PA_trans _ _ _ _ _ _ H0 Et). }
       destruct (recv c s1 true LStarted) as [[s2 ts] os] eqn:Es.
       apply recv_quiet in Es as [Hqs (_ & Hrs & _)].
-      assert (H1 : PA c (restarts s) ([Produce (inc (upd_inc s (S (inc s))))] ++ ti ++ [EvInitialized] ++ ts) (restarts s2)).
+      assert (H1 : PA true c (restarts s) ([Produce (inc (upd_inc s (S (inc s))))] ++ ti ++ [EvInitialized] ++ ts) (restarts s2)).
       { rewrite Hrs, Hri. apply PA_quiet. constructor; [exact I|].
         apply Forall_app; split; [exact Hqi|]. constructor; [exact I|exact Hqs]. }
       destruct os.
       2:{ destruct (try_restart f c s2 internal) as [[s3 t3] o3] eqn:Et. injection H as <- <- <-.
           apply IHr in Et. exact (PA_trans _ _ _ _ _ _ H1 Et). }
       set (t1 := [Produce _] ++ ti ++ [EvInitialized] ++ ts) in *.
-      assert (H2 : PA c (restarts s) (t1 ++ [EvStarted]) (restarts s2)).
+      assert (H2 : PA true c (restarts s) (t1 ++ [EvStarted]) (restarts s2)).
       { eapply PA_trans; [exact H1|]. apply PA_quiet. repeat constructor. }
       assert (Hrep : exists s3 t3 o3,
         match mbuf s2 with
         | [] => (s2, [], Normal)
         | e :: l => let '(s', t', o') := invoke f c s2 (e :: l) in
                     match o' with Normal => (upd_mbuf s' [], t', Normal) | Panicking _ => (s', t', o') end
-        end = (s3, t3, o3) /\ PA c (restarts s2) t3 (restarts s3)).
+        end = (s3, t3, o3) /\ PA true c (restarts s2) t3 (restarts s3)).
       { destruct (mbuf s2) as [|e0 b0].
         - exists s2, [], Normal. split; [reflexivity|]. apply PA_quiet. constructor.
         - destruct (invoke f c s2 (e0 :: b0)) as [[sx tx] ox] eqn:Einv. apply IHi in Einv.
@@ -400,7 +411,7 @@ Proof.
       destruct Hrep as (s3 & t3 & o3 & Heq & H3). rewrite Heq in H. clear Heq.
       destruct o3.
       * injection H as <- <- <-.
-        assert (He : PA c (restarts s3) (snd (start_end s3)) (restarts (fst (start_end s3)))).
+        assert (He : PA true c (restarts s3) (snd (start_end s3)) (restarts (fst (start_end s3)))).
         { unfold start_end. destruct (dead s3); cbn [fst snd]; apply PA_quiet; repeat constructor. }
         exact (PA_trans _ _ _ _ _ _ H2 (PA_trans _ _ _ _ _ _ H3 He)).
       * destruct (try_restart f c s3 internal) as [[s4 t4] o4] eqn:Et. injection H as <- <- <-.
@@ -410,7 +421,7 @@ Proof.
         destruct o1.
         -- destruct (start f c s1) as [[s2 t2] o2] eqn:E2. injection H as <- <- <-. apply IHs in E2.
            rewrite Hr in E2. eapply PA_trans; [apply PA_quiet, Hq|].
-           eapply PA_trans; [apply PA_quiet; repeat constructor|exact E2].
+           apply PA_cons; [exact I|exact E2].
         -- injection H as <- <- <-. rewrite Hr. apply PA_quiet, Hq.
       * destruct (Nat.eqb (restarts s) (maxr c)) eqn:Em.
         -- destruct (cleanup c s None) as [[s1 t1] o1] eqn:E1. apply cleanup_quiet in E1 as [Hq Hr].
@@ -420,10 +431,1479 @@ Proof.
         -- apply Nat.eqb_neq in Em.
            destruct (recv c s true LStopped) as [[s1 t1] o1] eqn:E1. apply recv_quiet in E1 as [Hq (_ & Hr & _)].
            destruct o1.
-           ++ destruct (start f c _) as [[s3 t3] o3] eqn:E3. injection H as <- <- <-. apply IHs in E3.
+           ++ cbv zeta in H. destruct (start f c (upd_restarts s1 (S (restarts s1)))) as [[s3 t3] o3] eqn:E3.
+              injection H as <- <- <-. apply IHs in E3.
               cbn in E3. rewrite Hr in E3. eapply PA_trans; [apply PA_quiet, Hq|].
-              change ([EvRestarted (S (restarts s1)); Sleep] ++ t3) with ([EvRestarted (S (restarts s1))] ++ [Sleep] ++ t3).
-              rewrite Hr. eapply PA_trans; [apply PA_restarted, Em|].
-              eapply PA_trans; [apply PA_quiet; repeat constructor|exact E3].
+              rewrite Hr. apply (PA_trans c _ [EvRestarted (S (restarts s))] (S (restarts s)) (Sleep :: t3)); [apply PA_restarted, Em|].
+              apply PA_cons; [exact I|exact E3].
            ++ injection H as <- <- <-. rewrite Hr. apply PA_quiet, Hq.
 Qed.
+
+Lemma run_loop_0 c s : run_loop 0 c s = (s, [OutOfFuel]).
+Proof. reflexivity. Qed.
+
+Lemma send_self_frame s e s' t : send_self s e = (s', t) -> frame s s' /\ Forall hev t.
+Proof.
+  unfold send_self, sent_of. destruct (registered s); intros [= <- <-];
+    (split; [repeat split|destruct (emsg e); repeat constructor]).
+Qed.
+Lemma poison_self_frame s g s' t : poison_self s g = (s', t) -> frame s s' /\ Forall hev t.
+Proof.
+  unfold poison_self. destruct (registered s); intros [= <- <-]; (split; [repeat split|repeat constructor]).
+Qed.
+
+Definition ext_pre (s : pst) (x : extop) : pst * list event :=
+  match x with
+  | XSend n => send_self s {| emsg := User n; esnd := false |}
+  | XPoison => poison_self s true
+  | XStop => poison_self s false
+  end.
+
+Lemma ext_step_eq f c s x : ext_step f c s x =
+  let '(s1, t1) := ext_pre s x in let '(s2, t2) := run_loop f c s1 in (s2, t1 ++ t2).
+Proof. reflexivity. Qed.
+
+Lemma ext_pre_frame s x s' t : ext_pre s x = (s', t) -> frame s s' /\ Forall hev t.
+Proof. destruct x; cbn [ext_pre]; [apply send_self_frame|apply poison_self_frame|apply poison_self_frame]. Qed.
+
+Lemma invoke_PA c f s msgs s' t o : invoke f c s msgs = (s', t, o) -> PA true c (restarts s) t (restarts s').
+Proof. apply (invoke_start_restart_PA c f). Qed.
+Lemma start_PA c f s s' t o : start f c s = (s', t, o) -> PA true c (restarts s) t (restarts s').
+Proof. apply (invoke_start_restart_PA c f). Qed.
+
+Lemma run_loop_PA c : forall f s s' t, run_loop f c s = (s', t) -> PA false c (restarts s) t (restarts s').
+Proof.
+  induction f as [|f IH]; intros s s' t H.
+  - rewrite run_loop_0 in H. injection H as <- <-. apply PA_quiet. repeat constructor.
+  - rewrite run_loop_S in H. destruct (istatus_stopped s).
+    { injection H as <- <-. apply PA_quiet. constructor. }
+    destruct (queue s) as [|e q] eqn:Eq.
+    { injection H as <- <-. apply PA_quiet. constructor. }
+    cbv zeta in H. destruct (invoke f c _ _) as [[s1 t1] o1] eqn:Ei. apply invoke_PA, PA_weaken in Ei. cbn [restarts upd_queue] in Ei.
+    destruct o1.
+    + destruct (run_loop f c s1) as [s2 t2] eqn:El. injection H as <- <-. apply IH in El.
+      exact (PA_trans _ _ _ _ _ _ Ei El).
+    + injection H as <- <-. refine (PA_trans _ _ _ _ _ _ Ei _). apply PA_escaped.
+Qed.
+
+Lemma spawn_PA c f s' t : spawn f c = (s', t) -> PA false c 0 t (restarts s').
+Proof.
+  unfold spawn. destruct (start f c init_pst) as [[s1 t1] o1] eqn:Es. apply start_PA, PA_weaken in Es. cbn [restarts init_pst] in Es.
+  destruct o1.
+  - destruct (run_loop f c s1) as [s2 t2] eqn:El. intros [= <- <-]. apply run_loop_PA in El.
+    exact (PA_trans _ _ _ _ _ _ Es El).
+  - intros [= <- <-]. refine (PA_trans _ _ _ _ _ _ Es _). apply PA_escaped.
+Qed.
+
+Lemma ext_step_PA c f s x s' t : ext_step f c s x = (s', t) -> PA false c (restarts s) t (restarts s').
+Proof.
+  rewrite ext_step_eq. destruct (ext_pre s x) as [s1 t1] eqn:E1. apply ext_pre_frame in E1 as [(_ & Hr & _) Hh].
+  destruct (run_loop f c s1) as [s2 t2] eqn:El. intros [= <- <-]. apply run_loop_PA in El. rewrite Hr in El.
+  refine (PA_trans _ _ _ _ _ _ _ El). apply PA_quiet, hev_quiet, Hh.
+Qed.
+
+Lemma ext_steps_PA c f : forall xs s s' t, ext_steps f c s xs = (s', t) -> PA false c (restarts s) t (restarts s').
+Proof.
+  induction xs as [|x xs IH]; intros s s' t H; cbn [ext_steps] in H.
+  - injection H as <- <-. apply PA_quiet. constructor.
+  - destruct (ext_step f c s x) as [s1 t1] eqn:E1. apply ext_step_PA in E1.
+    destruct (has_escaped t1).
+    + injection H as <- <-. exact E1.
+    + destruct (ext_steps f c s1 xs) as [s2 t2] eqn:E2. injection H as <- <-. apply IH in E2.
+      exact (PA_trans _ _ _ _ _ _ E1 E2).
+Qed.
+
+Lemma run_PA c f xs s' t : run f c xs = (s', t) -> PA false c 0 t (restarts s').
+Proof.
+  unfold run. destruct (spawn f c) as [s1 t1] eqn:E1. apply spawn_PA in E1.
+  destruct (has_escaped t1).
+  - intros [= <- <-]. exact E1.
+  - destruct (ext_steps f c s1 xs) as [s2 t2] eqn:E2. intros [= <- <-]. apply ext_steps_PA in E2.
+    exact (PA_trans _ _ _ _ _ _ E1 E2).
+Qed.
+
+(** C13: every delivery of a run went through the middleware chain *)
+Theorem C13_every_delivery_through_chain_thm :
+  forall f c xs s t, run f c xs = (s, t) ->
+  forall i mw m sd, In (Recv i mw m sd) t -> mw = true.
+Proof.
+  intros f c xs s t H i mw m sd Hin. apply run_PA in H as [Hm _].
+  rewrite Forall_forall in Hm. exact (Hm _ Hin).
+Qed.
+
+Lemma forallb_or_full_recvs t : Forall mw_ok t -> forallb or_full (recvs_of t) = true.
+Proof.
+  induction 1 as [|e t He _ IH]; [reflexivity|]. destruct e; cbn in *; try exact IH. rewrite He. exact IH.
+Qed.
+
+(** C06: at most MaxRestarts restarts; C05: the counters published are 1, 2, 3, … *)
+Theorem C06_restarts_bounded_thm :
+  forall f c xs s t, run f c xs = (s, t) ->
+  length (restarted_counters (events_of t)) <= maxr c /\
+  restarted_counters (events_of t) = seq 1 (length (restarted_counters (events_of t))) /\
+  length (restarted_counters (events_of t)) = restarts s.
+Proof.
+  intros f c xs s t H. apply run_PA in H as [_ H]. destruct (H (Nat.le_0_l _)) as (_ & Hle & Heq).
+  rewrite rcs_events, Heq, seq_length, Nat.sub_0_r. repeat split; [exact Hle].
+Qed.
+
+(* ------------------------------------------------------------------ *)
+(** * B. The Stopped handler does not panic: nothing escapes (C05) *)
+
+Definition nopanic (a : action) : Prop := a <> APanic /\ a <> APanicInternal.
+
+(* A panic raised by the Stopped handler is raised from inside the recover
+   path (tryRestart / cleanup run in the deferred function): nothing above it
+   recovers, in the model as in process.go, and the panic leaves the worker
+   goroutine.  Containment is therefore stated for receivers whose Stopped
+   handler does not panic. *)
+Definition stopped_safe (c : cfg) : Prop := forall i, Forall nopanic (scr c i LStopped).
+
+Lemma do_actions_nopanic : forall acts, Forall nopanic acts ->
+  forall s s' t o, do_actions s acts = (s', t, o) -> o = Normal.
+Proof.
+  induction 1 as [|a acts [Ha1 Ha2] _ IH]; intros s s' t o H; cbn [do_actions] in H.
+  - injection H as <- <- <-. reflexivity.
+  - destruct a; try congruence;
+      match type of H with (let '(_, _) := ?X in _) = _ => destruct X as [s1 t1] end;
+      destruct (do_actions s1 acts) as [[s2 t2] o2] eqn:E2; injection H as <- <- <-; eapply IH; exact E2.
+Qed.
+
+Lemma recv_stopped_safe c s mw s' t o : stopped_safe c -> recv c s mw LStopped = (s', t, o) -> o = Normal.
+Proof. intros Hs H. apply recv_inv in H as (ta & _ & H). eapply do_actions_nopanic; [apply Hs|exact H]. Qed.
+
+Lemma cleanup_safe c s k s' t o : stopped_safe c -> cleanup c s k = (s', t, o) -> o = Normal.
+Proof.
+  intros Hs. unfold cleanup, deliver_stopped. destruct (recv c _ true LStopped) as [[s1 t1] o1] eqn:E.
+  apply recv_stopped_safe in E; [|exact Hs]. subst o1. intros [= <- <- <-]. reflexivity.
+Qed.
+
+(** ** Big-step relations of completed runs
+
+    [Invoke_s c s msgs s' t]: Invoke on [msgs] from state [s] ran to completion
+    (all nested restarts included), ending in [s'] with trace [t]; likewise
+    [Start_s] and [Restart_s].  Every run of the fuel functions that did not
+    run out of fuel is such a derivation when the Stopped handler does not
+    panic ([safe_sound]); the invariants below are proved by induction on
+    these derivations. *)
+Inductive Invoke_s (c : cfg) : pst -> list env -> pst -> list event -> Prop :=
+| IvNormal s msgs s' t np d :
+    invoke_loop c s msgs 0 = (s', t, Normal, np, d) -> Invoke_s c s msgs s' t
+| IvPanic s msgs s1 t1 b np d s' t2 :
+    invoke_loop c s msgs 0 = (s1, t1, Panicking b, np, d) ->
+    Restart_s c (upd_mbuf s1 (rbuf d np msgs)) b s' t2 ->
+    Invoke_s c s msgs s' (t1 ++ t2)
+with Start_s (c : cfg) : pst -> pst -> list event -> Prop :=
+| StInitPanic s si ti b s' t' :
+    recv c (upd_inc s (S (inc s))) true LInit = (si, ti, Panicking b) ->
+    Restart_s c si b s' t' ->
+    Start_s c s s' (Produce (S (inc s)) :: ti ++ t')
+| StStartedPanic s si ti s2 ts b s' t' :
+    recv c (upd_inc s (S (inc s))) true LInit = (si, ti, Normal) ->
+    recv c si true LStarted = (s2, ts, Panicking b) ->
+    Restart_s c s2 b s' t' ->
+    Start_s c s s' (Produce (S (inc s)) :: ti ++ EvInitialized :: ts ++ t')
+| StEmpty s si ti s2 ts :
+    recv c (upd_inc s (S (inc s))) true LInit = (si, ti, Normal) ->
+    recv c si true LStarted = (s2, ts, Normal) ->
+    mbuf s2 = [] ->
+    Start_s c s (fst (start_end s2))
+      (Produce (S (inc s)) :: ti ++ EvInitialized :: ts ++ EvStarted :: snd (start_end s2))
+| StReplay s si ti s2 ts s3 t3 :
+    recv c (upd_inc s (S (inc s))) true LInit = (si, ti, Normal) ->
+    recv c si true LStarted = (s2, ts, Normal) ->
+    mbuf s2 <> [] ->
+    Invoke_s c s2 (mbuf s2) s3 t3 ->
+    Start_s c s (fst (start_end (upd_mbuf s3 [])))
+      (Produce (S (inc s)) :: ti ++ EvInitialized :: ts ++ EvStarted :: t3 ++ snd (start_end (upd_mbuf s3 [])))
+with Restart_s (c : cfg) : pst -> bool -> pst -> list event -> Prop :=
+| RsInternal s s1 t1 s' t' :
+    recv c s true LStopped = (s1, t1, Normal) ->
+    Start_s c s1 s' t' ->
+    Restart_s c s true s' (t1 ++ Sleep :: t')
+| RsMax s s1 t1 :
+    restarts s = maxr c ->
+    cleanup c s None = (s1, t1, Normal) ->
+    Restart_s c s false (upd_mbuf s1 []) (EvMaxRestarts :: t1 ++ flat_map discard (mbuf s1))
+| RsRestart s s1 t1 s' t3 :
+    restarts s <> maxr c ->
+    recv c s true LStopped = (s1, t1, Normal) ->
+    Start_s c (upd_restarts s1 (S (restarts s1))) s' t3 ->
+    Restart_s c s false s' (t1 ++ EvRestarted (S (restarts s1)) :: Sleep :: t3).
+
+Scheme Invoke_s_mut := Minimality for Invoke_s Sort Prop
+  with Start_s_mut := Minimality for Start_s Sort Prop
+  with Restart_s_mut := Minimality for Restart_s Sort Prop.
+Combined Scheme safe_mutind from Invoke_s_mut, Start_s_mut, Restart_s_mut.
+
+Lemma Invoke_s_eq c s m s' t t' : Invoke_s c s m s' t -> t = t' -> Invoke_s c s m s' t'.
+Proof. intros H <-. exact H. Qed.
+Lemma Start_s_eq c s s' t t' : Start_s c s s' t -> t = t' -> Start_s c s s' t'.
+Proof. intros H <-. exact H. Qed.
+Lemma Restart_s_eq c s b s' t t' : Restart_s c s b s' t -> t = t' -> Restart_s c s b s' t'.
+Proof. intros H <-. exact H. Qed.
+
+Lemma oof_app_false a b : out_of_fuel (a ++ b) = false -> out_of_fuel a = false /\ out_of_fuel b = false.
+Proof. rewrite out_of_fuel_app. apply orb_false_iff. Qed.
+
+Lemma oof_cons_false e t : out_of_fuel (e :: t) = false -> out_of_fuel t = false.
+Proof. unfold out_of_fuel. cbn [existsb]. intros H. apply orb_false_iff in H. tauto. Qed.
+
+Ltac trace_eq := cbn [app]; rewrite <- ?app_assoc; cbn [app]; reflexivity.
+
+Lemma safe_sound c (Hs : stopped_safe c) : forall f,
+  (forall s msgs s' t o, invoke f c s msgs = (s', t, o) -> out_of_fuel t = false ->
+     o = Normal /\ Invoke_s c s msgs s' t) /\
+  (forall s s' t o, start f c s = (s', t, o) -> out_of_fuel t = false ->
+     o = Normal /\ Start_s c s s' t) /\
+  (forall s b s' t o, try_restart f c s b = (s', t, o) -> out_of_fuel t = false ->
+     o = Normal /\ Restart_s c s b s' t).
+Proof.
+  induction f as [|f (IHi & IHs & IHr)].
+  - split; [|split]; intros *; intros H Hf;
+      [rewrite invoke_0 in H|rewrite start_0 in H|rewrite try_restart_0 in H];
+      injection H as <- <- <-; discriminate Hf.
+  - split; [|split].
+    + intros s msgs s' t o H Hf. rewrite invoke_S in H.
+      destruct (invoke_loop c s msgs 0) as [[[[s1 t1] o1] np] d] eqn:El. destruct o1.
+      * injection H as <- <- <-. split; [reflexivity|]. eapply IvNormal; exact El.
+      * destruct (try_restart f c _ internal) as [[s2 t2] o2] eqn:Et. injection H as <- <- <-.
+        apply oof_app_false in Hf as [Hf1 Hf2]. destruct (IHr _ _ _ _ _ Et Hf2) as [-> Hr].
+        split; [reflexivity|]. eapply IvPanic; eassumption.
+    + intros s s' t o H Hf. rewrite start_S in H. cbv zeta in H.
+      destruct (recv c (upd_inc s (S (inc s))) true LInit) as [[s1 ti] oi] eqn:Ei. destruct oi.
+      2:{ destruct (try_restart f c s1 internal) as [[sx tx] ox] eqn:Et. injection H as <- <- <-.
+          apply oof_app_false in Hf as [Hf1 Hf2]. destruct (IHr _ _ _ _ _ Et Hf2) as [-> Hr].
+          split; [reflexivity|]. eapply Start_s_eq; [eapply StInitPanic; eassumption|trace_eq]. }
+      destruct (recv c s1 true LStarted) as [[s2 ts] os] eqn:Es. destruct os.
+      2:{ destruct (try_restart f c s2 internal) as [[sx tx] ox] eqn:Et. injection H as <- <- <-.
+          apply oof_app_false in Hf as [Hf1 Hf2]. destruct (IHr _ _ _ _ _ Et Hf2) as [-> Hr].
+          split; [reflexivity|]. eapply Start_s_eq; [eapply StStartedPanic; eassumption|trace_eq]. }
+      destruct (mbuf s2) as [|e0 b0] eqn:Eb.
+      * injection H as <- <- <-. split; [reflexivity|].
+        eapply Start_s_eq; [eapply StEmpty; eassumption|trace_eq].
+      * destruct (invoke f c s2 (e0 :: b0)) as [[sx tx] ox] eqn:Einv.
+        destruct ox.
+        -- injection H as <- <- <-. split; [reflexivity|].
+           assert (Hfx : out_of_fuel tx = false).
+           { apply oof_app_false in Hf as [_ Hf]. apply oof_app_false in Hf as [Hf _]. exact Hf. }
+           destruct (IHi _ _ _ _ _ Einv Hfx) as [_ Hi]. rewrite <- Eb in Hi.
+           eapply Start_s_eq; [eapply StReplay; try eassumption; congruence|trace_eq].
+        -- destruct (try_restart f c sx internal) as [[sy ty] oy]. injection H as <- <- <-.
+           assert (Hfx : out_of_fuel tx = false).
+           { apply oof_app_false in Hf as [Hf _]. apply oof_app_false in Hf as [_ Hf]. exact Hf. }
+           destruct (IHi _ _ _ _ _ Einv Hfx) as [Hx _]. discriminate Hx.
+    + intros s b s' t o H Hf. rewrite try_restart_S in H. destruct b.
+      * destruct (recv c s true LStopped) as [[s1 t1] o1] eqn:E1.
+        pose proof (recv_stopped_safe _ _ _ _ _ _ Hs E1) as ->.
+        destruct (start f c s1) as [[s2 t2] o2] eqn:E2. injection H as <- <- <-.
+        apply oof_app_false in Hf as [Hf1 Hf2]. apply oof_cons_false in Hf2.
+        destruct (IHs _ _ _ _ E2 Hf2) as [-> Hst]. split; [reflexivity|].
+        eapply Restart_s_eq; [eapply RsInternal; eassumption|trace_eq].
+      * destruct (Nat.eqb (restarts s) (maxr c)) eqn:Em.
+        -- apply Nat.eqb_eq in Em. destruct (cleanup c s None) as [[s1 t1] o1] eqn:E1.
+           pose proof (cleanup_safe _ _ _ _ _ _ Hs E1) as ->. injection H as <- <- <-.
+           split; [reflexivity|]. eapply RsMax; eassumption.
+        -- apply Nat.eqb_neq in Em. destruct (recv c s true LStopped) as [[s1 t1] o1] eqn:E1.
+           pose proof (recv_stopped_safe _ _ _ _ _ _ Hs E1) as ->. cbv zeta in H.
+           destruct (start f c (upd_restarts s1 (S (restarts s1)))) as [[s3 t3] o3] eqn:E3.
+           injection H as <- <- <-. apply oof_app_false in Hf as [Hf1 Hf2]. do 2 apply oof_cons_false in Hf2.
+           destruct (IHs _ _ _ _ E3 Hf2) as [-> Hst]. split; [reflexivity|].
+           eapply Restart_s_eq; [eapply RsRestart; eassumption|trace_eq].
+Qed.
+
+(** ** Nothing escapes (any fuel) *)
+Lemma safe_normal c (Hs : stopped_safe c) : forall f,
+  (forall s msgs s' t o, invoke f c s msgs = (s', t, o) -> o = Normal) /\
+  (forall s s' t o, start f c s = (s', t, o) -> o = Normal) /\
+  (forall s b s' t o, try_restart f c s b = (s', t, o) -> o = Normal).
+Proof.
+  induction f as [|f (IHi & IHs & IHr)].
+  - split; [|split]; intros *; intros H;
+      [rewrite invoke_0 in H|rewrite start_0 in H|rewrite try_restart_0 in H];
+      injection H as <- <- <-; reflexivity.
+  - split; [|split].
+    + intros s msgs s' t o H. rewrite invoke_S in H.
+      destruct (invoke_loop c s msgs 0) as [[[[s1 t1] o1] np] d] eqn:El. destruct o1.
+      * injection H as <- <- <-. reflexivity.
+      * destruct (try_restart f c _ internal) as [[s2 t2] o2] eqn:Et. injection H as <- <- <-.
+        eapply IHr; exact Et.
+    + intros s s' t o H. rewrite start_S in H. cbv zeta in H.
+      destruct (recv c (upd_inc s (S (inc s))) true LInit) as [[s1 ti] oi] eqn:Ei. destruct oi.
+      2:{ destruct (try_restart f c s1 internal) as [[sx tx] ox] eqn:Et. injection H as <- <- <-.
+          eapply IHr; exact Et. }
+      destruct (recv c s1 true LStarted) as [[s2 ts] os] eqn:Es. destruct os.
+      2:{ destruct (try_restart f c s2 internal) as [[sx tx] ox] eqn:Et. injection H as <- <- <-.
+          eapply IHr; exact Et. }
+      destruct (mbuf s2) as [|e0 b0] eqn:Eb.
+      * injection H as <- <- <-. reflexivity.
+      * destruct (invoke f c s2 (e0 :: b0)) as [[sx tx] ox] eqn:Einv.
+        pose proof (IHi _ _ _ _ _ Einv) as ->. injection H as <- <- <-. reflexivity.
+    + intros s b s' t o H. rewrite try_restart_S in H. destruct b.
+      * destruct (recv c s true LStopped) as [[s1 t1] o1] eqn:E1.
+        pose proof (recv_stopped_safe _ _ _ _ _ _ Hs E1) as ->.
+        destruct (start f c s1) as [[s2 t2] o2] eqn:E2. injection H as <- <- <-. eapply IHs; exact E2.
+      * destruct (Nat.eqb (restarts s) (maxr c)) eqn:Em.
+        -- destruct (cleanup c s None) as [[s1 t1] o1] eqn:E1.
+           pose proof (cleanup_safe _ _ _ _ _ _ Hs E1) as ->. injection H as <- <- <-. reflexivity.
+        -- destruct (recv c s true LStopped) as [[s1 t1] o1] eqn:E1.
+           pose proof (recv_stopped_safe _ _ _ _ _ _ Hs E1) as ->. cbv zeta in H.
+           destruct (start f c (upd_restarts s1 (S (restarts s1)))) as [[s3 t3] o3] eqn:E3.
+           injection H as <- <- <-. eapply IHs; exact E3.
+Qed.
+
+Lemma strict_noesc t : Forall (mw_okb true) t -> has_escaped t = false.
+Proof.
+  induction 1 as [|e t He _ IH]; [reflexivity|]. unfold has_escaped. cbn [existsb].
+  fold (has_escaped t). rewrite IH. destruct e; cbn in He; try reflexivity. discriminate.
+Qed.
+
+Lemma hev_noesc t : Forall hev t -> has_escaped t = false.
+Proof.
+  induction 1 as [|e t He _ IH]; [reflexivity|]. unfold has_escaped. cbn [existsb].
+  fold (has_escaped t). rewrite IH. destruct e; cbn in He; try reflexivity; contradiction.
+Qed.
+
+Lemma invoke_noesc c f s msgs s' t o : invoke f c s msgs = (s', t, o) -> has_escaped t = false.
+Proof. intros H. apply invoke_PA in H as [H _]. apply strict_noesc, H. Qed.
+Lemma start_noesc c f s s' t o : start f c s = (s', t, o) -> has_escaped t = false.
+Proof. intros H. apply start_PA in H as [H _]. apply strict_noesc, H. Qed.
+
+Lemma run_loop_noesc c (Hs : stopped_safe c) : forall f s s' t, run_loop f c s = (s', t) -> has_escaped t = false.
+Proof.
+  induction f as [|f IH]; intros s s' t H.
+  - rewrite run_loop_0 in H. injection H as <- <-. reflexivity.
+  - rewrite run_loop_S in H. destruct (istatus_stopped s); [injection H as <- <-; reflexivity|].
+    destruct (queue s) as [|e q] eqn:Eq; [injection H as <- <-; reflexivity|].
+    cbv zeta in H. destruct (invoke f c _ _) as [[s1 t1] o1] eqn:Ei.
+    pose proof (proj1 (safe_normal c Hs f) _ _ _ _ _ Ei) as ->. apply invoke_noesc in Ei.
+    destruct (run_loop f c s1) as [s2 t2] eqn:El. injection H as <- <-. apply IH in El.
+    rewrite has_escaped_app, Ei, El. reflexivity.
+Qed.
+
+Lemma spawn_noesc c (Hs : stopped_safe c) f s' t : spawn f c = (s', t) -> has_escaped t = false.
+Proof.
+  unfold spawn. destruct (start f c init_pst) as [[s1 t1] o1] eqn:Es.
+  pose proof (proj1 (proj2 (safe_normal c Hs f)) _ _ _ _ Es) as ->. apply start_noesc in Es.
+  destruct (run_loop f c s1) as [s2 t2] eqn:El. intros [= <- <-]. apply run_loop_noesc in El; [|exact Hs].
+  rewrite has_escaped_app, Es, El. reflexivity.
+Qed.
+
+Lemma ext_step_noesc c (Hs : stopped_safe c) f s x s' t : ext_step f c s x = (s', t) -> has_escaped t = false.
+Proof.
+  rewrite ext_step_eq. destruct (ext_pre s x) as [s1 t1] eqn:E1. apply ext_pre_frame in E1 as [_ Hh].
+  destruct (run_loop f c s1) as [s2 t2] eqn:El. intros [= <- <-]. apply run_loop_noesc in El; [|exact Hs].
+  rewrite has_escaped_app, El, (hev_noesc _ Hh). reflexivity.
+Qed.
+
+Lemma ext_steps_noesc c (Hs : stopped_safe c) f : forall xs s s' t, ext_steps f c s xs = (s', t) -> has_escaped t = false.
+Proof.
+  induction xs as [|x xs IH]; intros s s' t H; cbn [ext_steps] in H.
+  - injection H as <- <-. reflexivity.
+  - destruct (ext_step f c s x) as [s1 t1] eqn:E1. apply ext_step_noesc in E1; [|exact Hs]. rewrite E1 in H.
+    destruct (ext_steps f c s1 xs) as [s2 t2] eqn:E2. injection H as <- <-. apply IH in E2.
+    rewrite has_escaped_app, E1, E2. reflexivity.
+Qed.
+
+(** C05: a panic of Receive (Initialized, Started or a user message, any
+    incarnation, any position in a batch, during a replay or a drain) never
+    leaves the actor *)
+Theorem C05_contained_thm :
+  forall f c xs s t, stopped_safe c -> run f c xs = (s, t) -> has_escaped t = false.
+Proof.
+  intros f c xs s t Hs. unfold run. destruct (spawn f c) as [s1 t1] eqn:E1.
+  apply spawn_noesc in E1; [|exact Hs]. rewrite E1.
+  destruct (ext_steps f c s1 xs) as [s2 t2] eqn:E2. intros [= <- <-]. apply ext_steps_noesc in E2; [|exact Hs].
+  rewrite has_escaped_app, E1, E2. reflexivity.
+Qed.
+
+(** ** Completed scenarios as derivations *)
+Inductive RunLoop_s (c : cfg) : pst -> pst -> list event -> Prop :=
+| RlStopped s : istatus_stopped s = true -> RunLoop_s c s s []
+| RlEmpty s : istatus_stopped s = false -> queue s = [] -> RunLoop_s c s s []
+| RlStep s s1 t1 s2 t2 :
+    istatus_stopped s = false -> queue s <> [] ->
+    Invoke_s c (upd_queue s (skipn (batch c) (queue s))) (firstn (batch c) (queue s)) s1 t1 ->
+    RunLoop_s c s1 s2 t2 ->
+    RunLoop_s c s s2 (t1 ++ t2).
+
+Inductive Exts_s (c : cfg) : pst -> list extop -> pst -> list event -> Prop :=
+| ExNil s : Exts_s c s [] s []
+| ExCons s x s1 t1 s2 t2 xs s3 t3 :
+    ext_pre s x = (s1, t1) -> RunLoop_s c s1 s2 t2 -> Exts_s c s2 xs s3 t3 ->
+    Exts_s c s (x :: xs) s3 (t1 ++ t2 ++ t3).
+
+Inductive Run_s (c : cfg) (xs : list extop) : pst -> list event -> Prop :=
+| RunS s0 t0 s1 t1 s2 t2 :
+    Start_s c init_pst s0 t0 -> RunLoop_s c s0 s1 t1 -> Exts_s c s1 xs s2 t2 ->
+    Run_s c xs s2 (t0 ++ t1 ++ t2).
+
+Lemma run_loop_sound c (Hs : stopped_safe c) : forall f s s' t,
+  run_loop f c s = (s', t) -> out_of_fuel t = false -> RunLoop_s c s s' t.
+Proof.
+  induction f as [|f IH]; intros s s' t H Hf.
+  - rewrite run_loop_0 in H. injection H as <- <-. discriminate Hf.
+  - rewrite run_loop_S in H. destruct (istatus_stopped s) eqn:Ei; [injection H as <- <-; apply RlStopped, Ei|].
+    destruct (queue s) as [|e q] eqn:Eq; [injection H as <- <-; apply RlEmpty; assumption|].
+    cbv zeta in H. destruct (invoke f c _ _) as [[s1 t1] o1] eqn:Einv.
+    pose proof (proj1 (safe_normal c Hs f) _ _ _ _ _ Einv) as ->.
+    destruct (run_loop f c s1) as [s2 t2] eqn:El. injection H as <- <-.
+    apply oof_app_false in Hf as [Hf1 Hf2].
+    destruct (proj1 (safe_sound c Hs f) _ _ _ _ _ Einv Hf1) as [_ Hi].
+    rewrite <- Eq in Hi. eapply RlStep; [exact Ei|congruence|exact Hi|]. apply IH; assumption.
+Qed.
+
+Lemma ext_steps_sound c (Hs : stopped_safe c) f : forall xs s s' t,
+  ext_steps f c s xs = (s', t) -> out_of_fuel t = false -> Exts_s c s xs s' t.
+Proof.
+  induction xs as [|x xs IH]; intros s s' t H Hf; cbn [ext_steps] in H.
+  - injection H as <- <-. constructor.
+  - destruct (ext_step f c s x) as [s1 t1] eqn:E1.
+    rewrite (ext_step_noesc c Hs _ _ _ _ _ E1) in H.
+    destruct (ext_steps f c s1 xs) as [s2 t2] eqn:E2. injection H as <- <-.
+    rewrite ext_step_eq in E1. destruct (ext_pre s x) as [sa ta] eqn:Ea.
+    destruct (run_loop f c sa) as [sb tb] eqn:Eb. injection E1 as <- <-.
+    apply oof_app_false in Hf as [Hf1 Hf2]. apply oof_app_false in Hf1 as [_ Hf1].
+    rewrite <- app_assoc. eapply ExCons; [exact Ea|eapply run_loop_sound; eassumption|apply IH; assumption].
+Qed.
+
+Lemma run_sound c (Hs : stopped_safe c) f xs s t :
+  run f c xs = (s, t) -> out_of_fuel t = false -> Run_s c xs s t.
+Proof.
+  unfold run. destruct (spawn f c) as [s1 t1] eqn:E1.
+  rewrite (spawn_noesc c Hs _ _ _ E1). destruct (ext_steps f c s1 xs) as [s2 t2] eqn:E2.
+  intros [= <- <-] Hf. unfold spawn in E1. destruct (start f c init_pst) as [[sa ta] oa] eqn:Ea.
+  pose proof (proj1 (proj2 (safe_normal c Hs f)) _ _ _ _ Ea) as ->.
+  destruct (run_loop f c sa) as [sb tb] eqn:Eb. injection E1 as <- <-.
+  apply oof_app_false in Hf as [Hf1 Hf2]. apply oof_app_false in Hf1 as [Hf0 Hf1].
+  rewrite <- app_assoc. eapply RunS.
+  - apply (proj1 (proj2 (safe_sound c Hs f)) _ _ _ _ Ea Hf0).
+  - eapply run_loop_sound; eassumption.
+  - eapply ext_steps_sound; eassumption.
+Qed.
+
+(* ------------------------------------------------------------------ *)
+(** * C. The lifecycle monitor *)
+
+(* control points between the observable steps of process.go *)
+Inductive ctl :=
+| PFresh          (* nothing yet: Produce 1 comes next *)
+| PProduced       (* Producer called: Initialized comes next *)
+| PInitH          (* in / after the Initialized handler *)
+| PInitialized    (* ActorInitializedEvent published: Started comes next *)
+| PStartedH       (* in / after the Started handler *)
+| PRun            (* ActorStartedEvent published: user messages *)
+| PStoppedR       (* Stopped delivered on the restart path *)
+| PRestarted      (* ActorRestartedEvent published *)
+| PSlept          (* RestartDelay slept: Produce comes next *)
+| PMax            (* ActorMaxRestartsExceededEvent published *)
+| PInboxStopped   (* cleanup: inbox stopped, Stopped comes next *)
+| PStoppedC       (* cleanup: in / after the Stopped handler *)
+| PRemoved        (* unregistered *)
+| PDead.          (* ActorStoppedEvent published: only dead letters and cancels *)
+
+(* monitor state: current incarnation and phase exactly as [c04_word] counts
+   them, and the control point *)
+Record mst := MS { m_cur : nat; m_wph : nat; m_ctl : ctl }.
+
+Definition mstep (m : mst) (e : event) : option mst :=
+  let 'MS cur wph k := m in
+  match k, e with
+  | PFresh, Produce i => if (i =? 1) && (cur =? 0) then Some (MS cur wph PProduced) else None
+  | PSlept, Produce i => if (i =? S cur) && (wph =? 3) then Some (MS cur wph PProduced) else None
+  | PProduced, Recv i true LInit _ =>
+      if (i =? S cur) && ((cur =? 0) || (wph =? 3)) then Some (MS i 1 PInitH) else None
+  | PInitH, EvInitialized => Some (MS cur wph PInitialized)
+  | PInitialized, Recv i true LStarted _ => if (i =? cur) && (wph =? 1) then Some (MS cur 2 PStartedH) else None
+  | PStartedH, EvStarted => Some (MS cur wph PRun)
+  | PRun, Recv i true (LUser _) _ => if (i =? cur) && (wph =? 2) then Some m else None
+  | PRun, InboxStart _ => Some m
+  | PRun, InboxStop => Some (MS cur wph PInboxStopped)
+  | PInitH, Recv i true LStopped _ | PStartedH, Recv i true LStopped _ | PRun, Recv i true LStopped _ =>
+      if (i =? cur) && ((wph =? 1) || (wph =? 2)) then Some (MS cur 3 PStoppedR) else None
+  | PInitH, EvMaxRestarts | PStartedH, EvMaxRestarts | PRun, EvMaxRestarts => Some (MS cur wph PMax)
+  | PStoppedR, EvRestarted _ => Some (MS cur wph PRestarted)
+  | PStoppedR, Sleep => Some (MS cur wph PSlept)
+  | PRestarted, Sleep => Some (MS cur wph PSlept)
+  | PMax, InboxStop => Some (MS cur wph PInboxStopped)
+  | PInboxStopped, Recv i true LStopped _ =>
+      if (i =? cur) && ((wph =? 1) || (wph =? 2)) then Some (MS cur 3 PStoppedC) else None
+  | PStoppedC, RegRemove => Some (MS cur wph PRemoved)
+  | PRemoved, EvStopped => Some (MS cur wph PDead)
+  | PDead, EvDeadLetter _ | PDead, Cancel _ | PDead, Sent _ => Some m
+  | PInitH, Sent _ | PStartedH, Sent _ | PRun, Sent _ | PStoppedR, Sent _ | PStoppedC, Sent _ => Some m
+  | PInitH, Enq _ | PStartedH, Enq _ | PRun, Enq _ | PStoppedR, Enq _ | PStoppedC, Enq _ => Some m
+  | _, _ => None
+  end.
+
+Fixpoint mrun (t : list event) (m : mst) : option mst :=
+  match t with
+  | [] => Some m
+  | e :: t' => match mstep m e with Some m' => mrun t' m' | None => None end
+  end.
+
+Lemma mrun_app t1 t2 m :
+  mrun (t1 ++ t2) m = match mrun t1 m with Some m' => mrun t2 m' | None => None end.
+Proof.
+  revert m. induction t1 as [|e t1 IH]; intros m; [reflexivity|]. cbn [app mrun].
+  destruct (mstep m e); [apply IH|reflexivity].
+Qed.
+
+Lemma mrun_app_some t1 t2 m m1 m2 : mrun t1 m = Some m1 -> mrun t2 m1 = Some m2 -> mrun (t1 ++ t2) m = Some m2.
+Proof. intros H1 H2. rewrite mrun_app, H1. exact H2. Qed.
+
+Definition senqP (e : event) : Prop := match e with Sent _ | Enq _ => True | _ => False end.
+Definition deadP (e : event) : Prop := match e with Sent _ | EvDeadLetter _ | Cancel _ => True | _ => False end.
+Definition hstate (k : ctl) : Prop := k = PInitH \/ k = PStartedH \/ k = PRun \/ k = PStoppedR \/ k = PStoppedC.
+
+Lemma mrun_senq t cur w k : Forall senqP t -> hstate k -> mrun t (MS cur w k) = Some (MS cur w k).
+Proof.
+  intros H Hk. induction H as [|e t He _ IH]; [reflexivity|]. cbn [mrun].
+  replace (mstep (MS cur w k) e) with (Some (MS cur w k)); [exact IH|].
+  destruct e; try contradiction; destruct Hk as [->|[->|[->|[->| ->]]]]; reflexivity.
+Qed.
+
+Lemma mrun_dead t cur w : Forall deadP t -> mrun t (MS cur w PDead) = Some (MS cur w PDead).
+Proof.
+  intros H. induction H as [|e t He _ IH]; [reflexivity|]. cbn [mrun].
+  replace (mstep (MS cur w PDead) e) with (Some (MS cur w PDead)); [exact IH|].
+  destruct e; try contradiction; reflexivity.
+Qed.
+
+(** ** State predicates *)
+Definition alive (s : pst) : Prop := dead s = false /\ registered s = true.
+Definition gone (s : pst) : Prop :=
+  dead s = true /\ registered s = false /\ istatus_stopped s = true /\ queue s = [].
+
+Definition mfin (s : pst) : mst := if dead s then MS (inc s) 3 PDead else MS (inc s) 2 PRun.
+
+Lemma mfin_alive s : alive s -> mfin s = MS (inc s) 2 PRun.
+Proof. intros [H _]. unfold mfin. rewrite H. reflexivity. Qed.
+Lemma mfin_gone s : gone s -> mfin s = MS (inc s) 3 PDead.
+Proof. intros [H _]. unfold mfin. rewrite H. reflexivity. Qed.
+
+(* a handler run while the actor is registered only sends and enqueues *)
+Lemma do_actions_reg acts s s' t o : do_actions s acts = (s', t, o) -> registered s = true -> Forall senqP t.
+Proof.
+  intros H Hr.
+  enough (registered s = true -> Forall senqP t /\ registered s' = true) by tauto.
+  revert H. apply (do_actions_rel (fun s t s' => registered s = true -> Forall senqP t /\ registered s' = true)).
+  - intros. split; [constructor|assumption].
+  - intros s0 t1 s1 t2 s2 H1 H2 H0. destruct (H1 H0) as [Ha Hb]. destruct (H2 Hb) as [Hc Hd].
+    split; [apply Forall_app; split; assumption|exact Hd].
+  - intros s0 n b H0. unfold send_self. rewrite H0. cbn. split; [repeat constructor|exact H0].
+  - intros s0 g H0. unfold poison_self. rewrite H0. cbn. split; [repeat constructor|exact H0].
+Qed.
+
+Lemma recv_reg c s m s' t o : recv c s true m = (s', t, o) -> registered s = true ->
+  exists ta, t = Recv (inc s) true m (csender s) :: ta /\ Forall senqP ta /\ frame s s'.
+Proof.
+  intros H Hr. apply recv_inv in H as (ta & -> & H). exists ta. split; [reflexivity|].
+  split; [eapply do_actions_reg; eassumption|apply do_actions_frame in H; tauto].
+Qed.
+
+Lemma alive_frame s s' : frame s s' -> alive s -> alive s'.
+Proof. intros (_&_&_&_&Hd&Hr&_) [H1 H2]. split; congruence. Qed.
+
+Lemma discard_deadP e : Forall deadP (discard e).
+Proof. unfold discard. destruct (emsg e); repeat constructor. Qed.
+Lemma flat_discard_deadP l : Forall deadP (flat_map discard l).
+Proof. induction l; cbn; [constructor|apply Forall_app; split; [apply discard_deadP|assumption]]. Qed.
+Lemma discard_rest_deadP g l : Forall deadP (discard_rest g l).
+Proof.
+  unfold discard_rest. induction l as [|e l IH]; cbn; [constructor|]. apply Forall_app; split; [|exact IH].
+  destruct (emsg e) eqn:E; [destruct g; [constructor|]|]; unfold discard; rewrite E; repeat constructor.
+Qed.
+
+Lemma cleanup_normal_inv c s k s' t : cleanup c s k = (s', t, Normal) ->
+  exists s1 t1, recv c (upd_istopped (upd_dead s true) true) true LStopped = (s1, t1, Normal) /\
+    s' = upd_queue (upd_registered s1 false) [] /\
+    t = InboxStop :: t1 ++ RegRemove :: EvStopped :: flat_map discard (queue s1) ++
+        match k with Some k => [Cancel k] | None => [] end.
+Proof.
+  unfold cleanup, deliver_stopped. destruct (recv c _ true LStopped) as [[s1 t1] o1] eqn:E.
+  destruct o1; [|discriminate]. intros [= <- <-]. exists s1, t1. repeat split.
+Qed.
+
+Lemma cleanup_mon c s k s' t : cleanup c s k = (s', t, Normal) -> registered s = true ->
+  forall w k0, w = 1 \/ w = 2 -> k0 = PRun \/ k0 = PMax ->
+  mrun t (MS (inc s) w k0) = Some (MS (inc s) 3 PDead) /\ gone s' /\ inc s' = inc s /\
+  mbuf s' = mbuf s /\ restarts s' = restarts s.
+Proof.
+  intros H Hr w k0 Hw Hk. apply cleanup_normal_inv in H as (s1 & t1 & E & -> & ->).
+  apply recv_reg in E as (ta & -> & Hta & Hf); [|exact Hr].
+  destruct Hf as (Hi & Hrs & Hm & _ & Hd & Hrg & Hst). cbn in Hi, Hrs, Hm, Hd, Hrg, Hst.
+  split; [|repeat split; cbn; assumption].
+  cbn [mrun inc upd_istopped upd_dead].
+  assert (E1 : mstep (MS (inc s) w k0) InboxStop = Some (MS (inc s) w PInboxStopped)) by (destruct Hk as [-> | ->]; reflexivity).
+  rewrite E1. cbn [mstep mrun app]. rewrite Nat.eqb_refl.
+  assert (E2 : (w =? 1) || (w =? 2) = true) by (destruct Hw as [-> | ->]; reflexivity).
+  rewrite E2. cbn [andb]. rewrite mrun_app, (mrun_senq _ _ _ _ Hta) by (unfold hstate; tauto).
+  cbn [mrun mstep]. apply mrun_dead. apply Forall_app; split; [apply flat_discard_deadP|destruct k; repeat constructor].
+Qed.
+
+Lemma invoke_msg_mon c s e s' t o : invoke_msg c s e = (s', t, o) -> alive s ->
+  mrun t (MS (inc s) 2 PRun) = Some (MS (inc s) 2 PRun) /\ alive s' /\ inc s' = inc s /\
+  istatus_stopped s' = istatus_stopped s.
+Proof.
+  unfold invoke_msg. intros H Ha. destruct (emsg e).
+  - apply recv_reg in H as (ta & -> & Hta & Hf); [|apply Ha].
+    split; [|split; [eapply alive_frame; [exact Hf|exact Ha]|destruct Hf as (?&?&?&?&?&?&?); split; assumption]].
+    cbn [mrun mstep inc upd_csender]. rewrite Nat.eqb_refl. cbn. apply mrun_senq; [exact Hta|unfold hstate; tauto].
+  - injection H as <- <- <-. repeat split; apply Ha.
+Qed.
+
+Lemma drain_mon c : forall l s n sk s' t o np sk', drain c s l n sk = (s', t, o, np, sk') -> alive s ->
+  mrun t (MS (inc s) 2 PRun) = Some (MS (inc s) 2 PRun) /\ alive s' /\ inc s' = inc s /\
+  istatus_stopped s' = istatus_stopped s.
+Proof.
+  induction l as [|e l IH]; intros s n sk s' t o np sk' H Ha; cbn [drain] in H.
+  - injection H as <- <- <- <- <-. repeat split; apply Ha.
+  - destruct (emsg e) eqn:Ee; [|eapply IH; eassumption].
+    destruct (invoke_msg c s e) as [[s1 t1] o1] eqn:E1.
+    apply invoke_msg_mon in E1 as (Hm1 & Ha1 & Hi1 & Hs1); [|exact Ha]. destruct o1.
+    + destruct (drain c s1 l (S n) sk) as [[[[s2 t2] o2] np2] sk2] eqn:E2. injection H as <- <- <- <- <-.
+      apply IH in E2 as (Hm2 & Ha2 & Hi2 & Hs2); [|exact Ha1]. rewrite Hi1 in Hm2.
+      split; [eapply mrun_app_some; eassumption|]. repeat split; try apply Ha2; congruence.
+    + injection H as <- <- <- <- <-. repeat split; try apply Ha1; assumption.
+Qed.
+
+Section Monitor.
+Variable c : cfg.
+Hypothesis Hs : stopped_safe c.
+
+Lemma invoke_loop_mon : forall l s n s' t o np d, invoke_loop c s l n = (s', t, o, np, d) -> alive s ->
+  mrun t (MS (inc s) 2 PRun) = Some (mfin s') /\ inc s' = inc s /\
+  ((alive s' /\ istatus_stopped s' = istatus_stopped s) \/ (gone s' /\ o = Normal)).
+Proof.
+  induction l as [|e l IH]; intros s n s' t o np d H Ha; cbn [invoke_loop] in H.
+  - injection H as <- <- <- <- <-. rewrite mfin_alive by exact Ha. repeat split. left. split; [exact Ha|reflexivity].
+  - destruct (emsg e) eqn:Ee.
+    + destruct (invoke_msg c s e) as [[s1 t1] o1] eqn:E1.
+      apply invoke_msg_mon in E1 as (Hm1 & Ha1 & Hi1 & Hs1); [|exact Ha]. destruct o1.
+      * destruct (invoke_loop c s1 l (S n)) as [[[[s2 t2] o2] np2] d2] eqn:E2. injection H as <- <- <- <- <-.
+        apply IH in E2 as (Hm2 & Hi2 & Hd2); [|exact Ha1]. rewrite Hi1 in Hm2.
+        split; [eapply mrun_app_some; eassumption|]. split; [congruence|].
+        destruct Hd2 as [[? ?]|?]; [left; split; [assumption|congruence]|right; assumption].
+      * injection H as <- <- <- <- <-. rewrite mfin_alive by exact Ha1. rewrite Hi1.
+        split; [exact Hm1|]. split; [reflexivity|]. left. split; assumption.
+    + assert (Hd : exists s1 t1 o1 np1 sk1,
+          (if graceful then drain c s l (S n) [] else (s, [], Normal, S n, [])) = (s1, t1, o1, np1, sk1) /\
+          mrun t1 (MS (inc s) 2 PRun) = Some (MS (inc s) 2 PRun) /\ alive s1 /\ inc s1 = inc s /\
+          istatus_stopped s1 = istatus_stopped s).
+      { destruct graceful.
+        - destruct (drain c s l (S n) []) as [[[[s1 t1] o1] np1] sk1] eqn:E1. exists s1, t1, o1, np1, sk1.
+          split; [reflexivity|]. eapply drain_mon; eassumption.
+        - exists s, [], Normal, (S n), []. repeat split; apply Ha. }
+      destruct Hd as (s1 & t1 & o1 & np1 & sk1 & Heq & Hm1 & Ha1 & Hi1 & Hs1). rewrite Heq in H. clear Heq.
+      destruct o1.
+      * destruct (cleanup c s1 (Some k)) as [[s2 t2] o2] eqn:E2.
+        pose proof (cleanup_safe _ _ _ _ _ _ Hs E2) as ->.
+        apply cleanup_mon with (w := 2) (k0 := PRun) in E2 as (Hm2 & Hg2 & Hi2 & _); [|apply Ha1|tauto|tauto].
+        injection H as <- <- <- <- <-. rewrite (mfin_gone _ Hg2), Hi2, Hi1.
+        split; [|split; [reflexivity|right; split; [exact Hg2|reflexivity]]].
+        rewrite Hi1 in Hm2. eapply mrun_app_some; [exact Hm1|]. eapply mrun_app_some; [exact Hm2|].
+        apply mrun_dead, discard_rest_deadP.
+      * injection H as <- <- <- <- <-. rewrite (mfin_alive _ Ha1), Hi1.
+        split; [exact Hm1|]. split; [reflexivity|]. left. split; assumption.
+Qed.
+
+Definition start_pre (s : pst) (m : mst) : Prop :=
+  m = MS (inc s) 3 PSlept \/ (inc s = 0 /\ m = MS 0 0 PFresh).
+Definition tr_pre (s : pst) (m : mst) : Prop :=
+  m = MS (inc s) 1 PInitH \/ m = MS (inc s) 2 PStartedH \/ m = MS (inc s) 2 PRun.
+Definition opened (s' : pst) : Prop := (alive s' /\ istatus_stopped s' = false) \/ gone s'.
+
+Lemma start_pre_steps s m sd rest : start_pre s m ->
+  mrun (Produce (S (inc s)) :: Recv (S (inc s)) true LInit sd :: rest) m = mrun rest (MS (S (inc s)) 1 PInitH).
+Proof.
+  intros [-> | [H0 ->]].
+  - cbn [mrun mstep]. rewrite Nat.eqb_refl. cbn [andb Nat.eqb mrun mstep]. rewrite Nat.eqb_refl, orb_true_r. reflexivity.
+  - rewrite H0. reflexivity.
+Qed.
+
+Lemma tr_pre_stopped s m sd : tr_pre s m ->
+  mstep m (Recv (inc s) true LStopped sd) = Some (MS (inc s) 3 PStoppedR).
+Proof. intros [-> | [-> | ->]]; cbn [mstep]; rewrite Nat.eqb_refl; reflexivity. Qed.
+
+Lemma tr_pre_max s m : tr_pre s m ->
+  exists w, (w = 1 \/ w = 2) /\ mstep m EvMaxRestarts = Some (MS (inc s) w PMax).
+Proof. intros [-> | [-> | ->]]; eexists; (split; [|reflexivity]); tauto. Qed.
+
+Lemma start_end_opened s3 : alive s3 \/ gone s3 ->
+  mrun (snd (start_end s3)) (mfin s3) = Some (mfin (fst (start_end s3))) /\ opened (fst (start_end s3)).
+Proof.
+  unfold start_end, mfin. intros [Ha|Hg].
+  - destruct Ha as [Hd Hr]. rewrite Hd. cbn [fst snd dead upd_istopped]. rewrite Hd. split; [reflexivity|].
+    left. repeat split; assumption.
+  - pose proof Hg as (Hd & _). rewrite Hd. cbn [fst snd]. rewrite Hd. split; [reflexivity|right; exact Hg].
+Qed.
+
+Theorem safe_mon :
+  (forall s msgs s' t, Invoke_s c s msgs s' t -> alive s ->
+     mrun t (MS (inc s) 2 PRun) = Some (mfin s') /\
+     ((alive s' /\ (istatus_stopped s = false -> istatus_stopped s' = false)) \/ gone s')) /\
+  (forall s s' t, Start_s c s s' t -> alive s -> forall m, start_pre s m ->
+     mrun t m = Some (mfin s') /\ opened s') /\
+  (forall s b s' t, Restart_s c s b s' t -> alive s -> forall m, tr_pre s m ->
+     mrun t m = Some (mfin s') /\ opened s').
+Proof.
+  apply safe_mutind.
+  - (* IvNormal *) intros s msgs s' t np d El Ha.
+    apply invoke_loop_mon in El as (Hm & Hi & Hd); [|exact Ha]. split; [exact Hm|].
+    destruct Hd as [[? E]|[? _]]; [left; split; [assumption|rewrite E; tauto]|right; assumption].
+  - (* IvPanic *) intros s msgs s1 t1 b np d s' t2 El _ IH Ha.
+    apply invoke_loop_mon in El as (Hm & Hi & Hd); [|exact Ha].
+    destruct Hd as [[Ha1 Hst]|[_ ?]]; [|discriminate].
+    rewrite (mfin_alive _ Ha1), Hi in Hm.
+    destruct (IH Ha1 (MS (inc s) 2 PRun)) as [Hm2 Ho].
+    { right; right. cbn. rewrite Hi. reflexivity. }
+    split; [eapply mrun_app_some; eassumption|].
+    destruct Ho as [[? ?]|?]; [left; split; [assumption|tauto]|right; assumption].
+  - (* StInitPanic *) intros s si ti b s' t' Ei _ IH Ha m Hp.
+    apply recv_reg in Ei as (ta & -> & Hta & Hf); [|apply Ha]. cbn [inc upd_inc csender] in *.
+    cbn [app]. rewrite start_pre_steps by exact Hp. rewrite mrun_app, mrun_senq by (try exact Hta; unfold hstate; tauto).
+    apply IH; [eapply alive_frame; [exact Hf|exact Ha]|]. left. destruct Hf as (-> & _). reflexivity.
+  - (* StStartedPanic *) intros s si ti s2 ts b s' t' Ei Es _ IH Ha m Hp.
+    apply recv_reg in Ei as (ta & -> & Hta & Hf); [|apply Ha]. cbn [inc upd_inc csender] in *.
+    assert (Hai : alive si) by (eapply alive_frame; [exact Hf|exact Ha]).
+    assert (Hii : inc si = S (inc s)) by (destruct Hf as (-> & _); reflexivity).
+    apply recv_reg in Es as (tb & -> & Htb & Hf2); [|apply Hai].
+    cbn [app]. rewrite start_pre_steps by exact Hp. rewrite mrun_app, mrun_senq by (try exact Hta; unfold hstate; tauto).
+    cbn [mrun mstep]. rewrite Hii, Nat.eqb_refl. cbn [andb Nat.eqb]. rewrite mrun_app, mrun_senq by (try exact Htb; unfold hstate; tauto).
+    apply IH; [eapply alive_frame; [exact Hf2|exact Hai]|]. right; left. destruct Hf2 as (-> & _). rewrite Hii. reflexivity.
+  - (* StEmpty *) intros s si ti s2 ts Ei Es Hb Ha m Hp.
+    apply recv_reg in Ei as (ta & -> & Hta & Hf); [|apply Ha]. cbn [inc upd_inc csender] in *.
+    assert (Hai : alive si) by (eapply alive_frame; [exact Hf|exact Ha]).
+    assert (Hii : inc si = S (inc s)) by (destruct Hf as (-> & _); reflexivity).
+    apply recv_reg in Es as (tb & -> & Htb & Hf2); [|apply Hai].
+    assert (Ha2 : alive s2) by (eapply alive_frame; [exact Hf2|exact Hai]).
+    assert (Hi2 : inc s2 = S (inc s)) by (destruct Hf2 as (-> & _); exact Hii).
+    cbn [app]. rewrite start_pre_steps by exact Hp. rewrite mrun_app, mrun_senq by (try exact Hta; unfold hstate; tauto).
+    cbn [mrun mstep]. rewrite Hii, Nat.eqb_refl. cbn [andb Nat.eqb]. rewrite mrun_app, mrun_senq by (try exact Htb; unfold hstate; tauto).
+    cbn [mrun mstep]. rewrite <- Hi2, <- (mfin_alive _ Ha2). apply start_end_opened. left; exact Ha2.
+  - (* StReplay *) intros s si ti s2 ts s3 t3 Ei Es Hb _ IH Ha m Hp.
+    apply recv_reg in Ei as (ta & -> & Hta & Hf); [|apply Ha]. cbn [inc upd_inc csender] in *.
+    assert (Hai : alive si) by (eapply alive_frame; [exact Hf|exact Ha]).
+    assert (Hii : inc si = S (inc s)) by (destruct Hf as (-> & _); reflexivity).
+    apply recv_reg in Es as (tb & -> & Htb & Hf2); [|apply Hai].
+    assert (Ha2 : alive s2) by (eapply alive_frame; [exact Hf2|exact Hai]).
+    assert (Hi2 : inc s2 = S (inc s)) by (destruct Hf2 as (-> & _); exact Hii).
+    cbn [app]. rewrite start_pre_steps by exact Hp. rewrite mrun_app, mrun_senq by (try exact Hta; unfold hstate; tauto).
+    cbn [mrun mstep]. rewrite Hii, Nat.eqb_refl. cbn [andb Nat.eqb]. rewrite mrun_app, mrun_senq by (try exact Htb; unfold hstate; tauto).
+    cbn [mrun mstep]. destruct (IH Ha2) as [Hm3 Hd3]. rewrite Hi2 in Hm3. rewrite mrun_app, Hm3.
+    change (mfin s3) with (mfin (upd_mbuf s3 [])). apply start_end_opened.
+    destruct Hd3 as [[? _]|?]; [left|right]; assumption.
+  - (* RsInternal *) intros s s1 t1 s' t' E1 _ IH Ha m Hp.
+    apply recv_reg in E1 as (ta & -> & Hta & Hf); [|apply Ha].
+    cbn [app mrun]. rewrite (tr_pre_stopped _ _ _ Hp). rewrite mrun_app, mrun_senq by (try exact Hta; unfold hstate; tauto).
+    cbn [mrun mstep]. apply IH; [eapply alive_frame; [exact Hf|exact Ha]|]. left. destruct Hf as (-> & _). reflexivity.
+  - (* RsMax *) intros s s1 t1 Hmax E1 Ha m Hp.
+    destruct (tr_pre_max _ _ Hp) as (w & Hw & Em). cbn [mrun]. rewrite Em.
+    apply cleanup_mon with (w := w) (k0 := PMax) in E1 as (Hm1 & Hg1 & Hi1 & _); [|apply Ha|exact Hw|tauto].
+    assert (Hg : gone (upd_mbuf s1 [])) by exact Hg1.
+    rewrite (mfin_gone _ Hg). cbn [inc upd_mbuf]. rewrite Hi1. split; [|right; exact Hg].
+    eapply mrun_app_some; [exact Hm1|]. apply mrun_dead, flat_discard_deadP.
+  - (* RsRestart *) intros s s1 t1 s' t3 Hne E1 _ IH Ha m Hp.
+    apply recv_reg in E1 as (ta & -> & Hta & Hf); [|apply Ha].
+    cbn [app mrun]. rewrite (tr_pre_stopped _ _ _ Hp). rewrite mrun_app, mrun_senq by (try exact Hta; unfold hstate; tauto).
+    cbn [mrun mstep]. apply IH; [exact (alive_frame _ _ Hf Ha)|].
+    left. cbn. destruct Hf as (-> & _). reflexivity.
+Qed.
+
+End Monitor.
+
+(** ** Every completed scenario is accepted by the monitor *)
+Section MonitorRun.
+Variable c : cfg.
+Hypothesis Hs : stopped_safe c.
+
+Lemma opened_mfin_alive s : opened s -> istatus_stopped s = false -> alive s.
+Proof. intros [[H _]|(_ & _ & H & _)] E; [exact H|congruence]. Qed.
+
+Lemma RunLoop_mon s s' t : RunLoop_s c s s' t -> opened s -> mrun t (mfin s) = Some (mfin s') /\ opened s'.
+Proof.
+  induction 1 as [s E|s E Eq|s s1 t1 s2 t2 E Eq Hi _ IH]; intros Ho.
+  - split; [reflexivity|exact Ho].
+  - split; [reflexivity|exact Ho].
+  - pose proof (opened_mfin_alive _ Ho E) as Ha.
+    destruct (proj1 (safe_mon c Hs) _ _ _ _ Hi) as [Hm Hd]; [exact Ha|].
+    cbn [inc upd_queue istatus_stopped] in Hm, Hd.
+    assert (Ho1 : opened s1) by (destruct Hd as [[? H1]|?]; [left; split; [assumption|exact (H1 E)]|right; assumption]).
+    destruct (IH Ho1) as [Hm2 Ho2]. split; [|exact Ho2].
+    rewrite (mfin_alive _ Ha). eapply mrun_app_some; eassumption.
+Qed.
+
+Lemma ext_pre_mon s x s1 t1 : ext_pre s x = (s1, t1) -> opened s -> mrun t1 (mfin s) = Some (mfin s1) /\ opened s1.
+Proof.
+  intros H Ho.
+  assert (Hcase : (registered s = true /\ Forall senqP t1 /\ frame s s1 /\ (alive s -> queue s1 <> [] \/ True)) \/
+                  (registered s = false /\ Forall deadP t1 /\ frame s s1 /\ queue s1 = queue s)).
+  { destruct (registered s) eqn:Er; [left|right].
+    - destruct x; cbn [ext_pre] in H; unfold send_self, poison_self in H; rewrite Er in H; injection H as <- <-;
+        cbn; repeat split; repeat constructor; tauto.
+    - destruct x; cbn [ext_pre] in H; unfold send_self, poison_self in H; rewrite Er in H; injection H as <- <-;
+        cbn; repeat split; repeat constructor. }
+  destruct Ho as [[Ha Hst]|Hg].
+  - destruct Hcase as [(Hr & Ht & Hf & _)|(Hr & _)]; [|destruct Ha; congruence].
+    pose proof (alive_frame _ _ Hf Ha) as Ha1. rewrite (mfin_alive _ Ha), (mfin_alive _ Ha1).
+    destruct Hf as (Hi & _ & _ & _ & _ & _ & Hst1). rewrite Hi.
+    split; [apply mrun_senq; [exact Ht|unfold hstate; tauto]|left; split; [exact Ha1|congruence]].
+  - destruct Hcase as [(Hr & _)|(Hr & Ht & Hf & Hq)]; [destruct Hg as (_ & ? & _); congruence|].
+    assert (Hg1 : gone s1).
+    { destruct Hg as (H1 & H2 & H3 & H4). destruct Hf as (_ & _ & _ & _ & Hd & Hrg & Hst). repeat split; congruence. }
+    rewrite (mfin_gone _ Hg), (mfin_gone _ Hg1). destruct Hf as (Hi & _). rewrite Hi.
+    split; [apply mrun_dead, Ht|right; exact Hg1].
+Qed.
+
+Lemma Exts_mon s xs s' t : Exts_s c s xs s' t -> opened s -> mrun t (mfin s) = Some (mfin s') /\ opened s'.
+Proof.
+  induction 1 as [s|s x s1 t1 s2 t2 xs s3 t3 Ep Hl _ IH]; intros Ho.
+  - split; [reflexivity|exact Ho].
+  - destruct (ext_pre_mon _ _ _ _ Ep Ho) as [Hm1 Ho1]. destruct (RunLoop_mon _ _ _ Hl Ho1) as [Hm2 Ho2].
+    destruct (IH Ho2) as [Hm3 Ho3]. split; [|exact Ho3].
+    eapply mrun_app_some; [exact Hm1|]. eapply mrun_app_some; eassumption.
+Qed.
+
+Lemma init_alive : alive init_pst.
+Proof. split; reflexivity. Qed.
+
+Lemma Start_init_mon s0 t0 : Start_s c init_pst s0 t0 -> mrun t0 (MS 0 0 PFresh) = Some (mfin s0) /\ opened s0.
+Proof.
+  intros H. apply (proj1 (proj2 (safe_mon c Hs)) _ _ _ H init_alive). right. split; reflexivity.
+Qed.
+
+Theorem Run_mon xs s t : Run_s c xs s t -> mrun t (MS 0 0 PFresh) = Some (mfin s) /\ opened s.
+Proof.
+  intros [s0 t0 s1 t1 s2 t2 H0 H1 H2].
+  destruct (Start_init_mon _ _ H0) as [Hm0 Ho0]. destruct (RunLoop_mon _ _ _ H1 Ho0) as [Hm1 Ho1].
+  destruct (Exts_mon _ _ _ _ H2 Ho1) as [Hm2 Ho2]. split; [|exact Ho2].
+  eapply mrun_app_some; [exact Hm0|]. eapply mrun_app_some; eassumption.
+Qed.
+
+End MonitorRun.
+
+(** ** What the monitor's language implies *)
+
+(* case analysis of one monitor step *)
+Ltac ms_inv H :=
+  cbn [mstep] in H;
+  repeat match type of H with
+  | (if ?b then _ else _) = _ => let E := fresh "Ec" in destruct b eqn:E; [|discriminate H]
+  end;
+  try discriminate H.
+
+Ltac de e := destruct e as [?i|?i [] [] ?sd| | | |?n| |?p|?k| |?b| | |?e|?n| | ].
+
+Lemma mstep_nonrecv m e m' : mstep m e = Some m' ->
+  match e with Recv _ _ _ _ => True | _ => m_cur m' = m_cur m /\ m_wph m' = m_wph m end.
+Proof.
+  destruct m as [cur w k]. intros H.
+  destruct e; try exact I; destruct k; ms_inv H; injection H as <-; split; reflexivity.
+Qed.
+
+Lemma mstep_recv_word m i mw msg sd m' : mstep m (Recv i mw msg sd) = Some m' ->
+  forall l, c04_word l (m_cur m') (m_wph m') = true ->
+  c04_word ({| or_inc := i; or_msg := msg; or_snd := sd; or_full := mw |} :: l) (m_cur m) (m_wph m) = true.
+Proof.
+  destruct m as [cur w k]. intros H l Hl.
+  destruct mw, msg; destruct k; ms_inv H; injection H as <-; cbn [m_cur m_wph] in Hl;
+    cbn [c04_word or_inc or_msg m_cur m_wph];
+    try (rewrite Ec, Hl; reflexivity).
+  (* user message: the phase stays 2 *)
+  apply andb_true_iff in Ec as [E1 E2]. apply Nat.eqb_eq in E2. subst w. rewrite E1, Hl. reflexivity.
+Qed.
+
+Theorem mrun_word : forall t m m', mrun t m = Some m' -> c04_word (recvs_of t) (m_cur m) (m_wph m) = true.
+Proof.
+  induction t as [|e t IH]; intros m m' H; [reflexivity|]. cbn [mrun] in H.
+  destruct (mstep m e) as [m1|] eqn:E; [|discriminate]. specialize (IH _ _ H).
+  destruct e; try (pose proof (mstep_nonrecv _ _ _ E) as Hn; cbn in Hn; destruct Hn as [Hc Hw];
+                   rewrite Hc, Hw in IH; exact IH).
+  cbn [recvs_of]. eapply mstep_recv_word; eassumption.
+Qed.
+
+(* once the actor is being cleaned up only the cleanup sequence follows *)
+Definition final_ctl (k : ctl) : Prop :=
+  k = PMax \/ k = PInboxStopped \/ k = PStoppedC \/ k = PRemoved \/ k = PDead.
+Definition final_ev (e : event) : Prop :=
+  match e with
+  | Recv _ _ LStopped _ | InboxStop | RegRemove | EvStopped | Sent _ | Enq _ | EvDeadLetter _ | Cancel _ => True
+  | _ => False
+  end.
+
+Lemma mstep_final m e m' : mstep m e = Some m' -> final_ctl (m_ctl m) -> final_ctl (m_ctl m') /\ final_ev e.
+Proof.
+  destruct m as [cur w k]. unfold final_ctl. cbn [m_ctl]. intros H Hk.
+  destruct Hk as [->|[->|[->|[->| ->]]]]; de e; ms_inv H; injection H as <-; cbn; tauto.
+Qed.
+
+Lemma mrun_final : forall t m m', mrun t m = Some m' -> final_ctl (m_ctl m) -> final_ctl (m_ctl m') /\ Forall final_ev t.
+Proof.
+  induction t as [|e t IH]; intros m m' H Hk; cbn [mrun] in H.
+  - injection H as <-. split; [exact Hk|constructor].
+  - destruct (mstep m e) as [m1|] eqn:E; [|discriminate]. destruct (mstep_final _ _ _ E Hk) as [Hk1 He].
+    destruct (IH _ _ H Hk1) as [Hk' Ht]. split; [exact Hk'|constructor; assumption].
+Qed.
+
+(* after unregistering: only the Stopped event, dead letters, cancels and sends *)
+Definition late_ev (e : event) : Prop := e = EvStopped \/ deadP e.
+
+Lemma mrun_late : forall t m m', mrun t m = Some m' -> m_ctl m = PRemoved \/ m_ctl m = PDead ->
+  (m_ctl m' = PRemoved \/ m_ctl m' = PDead) /\ Forall late_ev t.
+Proof.
+  induction t as [|e t IH]; intros m m' H Hk; cbn [mrun] in H.
+  - injection H as <-. split; [exact Hk|constructor].
+  - destruct (mstep m e) as [m1|] eqn:E; [|discriminate]. destruct m as [cur w k]. cbn [m_ctl] in Hk.
+    assert (Hk1 : (m_ctl m1 = PRemoved \/ m_ctl m1 = PDead) /\ late_ev e).
+    { unfold late_ev. destruct Hk as [-> | ->]; de e; ms_inv E; injection E as <-; cbn; tauto. }
+    destruct Hk1 as [Hk1 He]. destruct (IH _ _ H Hk1) as [Hk' Ht]. split; [exact Hk'|constructor; assumption].
+Qed.
+
+Lemma mrun_from_dead : forall t cur w m', mrun t (MS cur w PDead) = Some m' -> Forall deadP t /\ m' = MS cur w PDead.
+Proof.
+  induction t as [|e t IH]; intros cur w m' H; cbn [mrun] in H.
+  - injection H as <-. split; [constructor|reflexivity].
+  - destruct (mstep (MS cur w PDead) e) as [m1|] eqn:E; [|discriminate].
+    assert (m1 = MS cur w PDead /\ deadP e) as [-> He] by (de e; ms_inv E; injection E as <-; cbn; tauto).
+    destruct (IH _ _ _ H) as [Ht ->]. split; [constructor; assumption|reflexivity].
+Qed.
+
+Lemma mstep_regremove m m' : mstep m RegRemove = Some m' -> m_ctl m = PStoppedC /\ m_ctl m' = PRemoved.
+Proof. destruct m as [cur w k]. intros H. destruct k; ms_inv H. injection H as <-. split; reflexivity. Qed.
+
+Lemma mstep_inboxstop m m' : mstep m InboxStop = Some m' -> m_ctl m' = PInboxStopped.
+Proof. destruct m as [cur w k]. intros H. destruct k; ms_inv H; injection H as <-; reflexivity. Qed.
+
+Lemma mstep_cancel m k m' : mstep m (Cancel k) = Some m' -> m_ctl m = PDead /\ m' = m.
+Proof. destruct m as [cur w k0]. intros H. destruct k0; ms_inv H. injection H as <-. split; reflexivity. Qed.
+
+Lemma mstep_max m m' : mstep m EvMaxRestarts = Some m' -> m_ctl m' = PMax.
+Proof. destruct m as [cur w k]. intros H. destruct k; ms_inv H; injection H as <-; reflexivity. Qed.
+
+Lemma mstep_restarted m n m' : mstep m (EvRestarted n) = Some m' ->
+  m_ctl m = PStoppedR /\ m' = MS (m_cur m) (m_wph m) PRestarted.
+Proof. destruct m as [cur w k]. intros H. destruct k; ms_inv H. injection H as <-. split; reflexivity. Qed.
+
+Lemma mrun_split t1 e t2 m m' : mrun (t1 ++ e :: t2) m = Some m' ->
+  exists ma mb, mrun t1 m = Some ma /\ mstep ma e = Some mb /\ mrun t2 mb = Some m'.
+Proof.
+  rewrite mrun_app. destruct (mrun t1 m) as [ma|]; [|discriminate]. cbn [mrun].
+  destruct (mstep ma e) as [mb|] eqn:E; [|discriminate]. intros H. exists ma, mb. repeat split; assumption.
+Qed.
+
+(** C04: nothing is delivered after the actor was unregistered; nothing is
+    produced or delivered to a user handler once cleanup has begun *)
+Lemma mon_nothing_after_unregister t m m' t1 t2 : mrun t m = Some m' -> t = t1 ++ RegRemove :: t2 ->
+  Forall late_ev t2.
+Proof.
+  intros H ->. apply mrun_split in H as (ma & mb & _ & E & H2). apply mstep_regremove in E as [_ E].
+  eapply mrun_late; [exact H2|left; exact E].
+Qed.
+
+Lemma mon_nothing_after_inboxstop t m m' t1 t2 : mrun t m = Some m' -> t = t1 ++ InboxStop :: t2 ->
+  Forall final_ev t2.
+Proof.
+  intros H ->. apply mrun_split in H as (ma & mb & _ & E & H2). apply mstep_inboxstop in E.
+  eapply mrun_final; [exact H2|]. unfold final_ctl. rewrite E. tauto.
+Qed.
+
+(** C07: no cancel before the target has handled Stopped and was unregistered *)
+Lemma deadP_no_stop t : Forall deadP t ->
+  existsb (fun e => match e with Recv _ _ LStopped _ => true | RegRemove => true | _ => false end) t = false.
+Proof. induction 1 as [|e t He _ IH]; [reflexivity|]. cbn [existsb]. rewrite IH. destruct e; try contradiction; reflexivity. Qed.
+
+Theorem mon_no_early_cancel : forall t m m', mrun t m = Some m' -> early_cancels t = [].
+Proof.
+  induction t as [|e t IH]; intros m m' H; [reflexivity|]. cbn [mrun] in H.
+  destruct (mstep m e) as [m1|] eqn:E; [|discriminate].
+  destruct e; cbn [early_cancels]; try (eapply IH; exact H).
+  apply mstep_cancel in E as [Ek ->]. destruct m as [cur w k0]. cbn in Ek. subst k0.
+  destruct (mrun_from_dead _ _ _ _ H) as [Hd _]. rewrite (deadP_no_stop _ Hd). cbn [app]. eapply IH; exact H.
+Qed.
+
+(* a cancel is preceded by the unregistration *)
+Lemma mrun_reach_dead : forall t m m', mrun t m = Some m' -> m_ctl m' = PDead \/ m_ctl m' = PRemoved ->
+  m_ctl m = PDead \/ m_ctl m = PRemoved \/ In RegRemove t.
+Proof.
+  induction t as [|e t IH]; intros m m' H Hk; cbn [mrun] in H.
+  - injection H as <-. tauto.
+  - destruct (mstep m e) as [m1|] eqn:E; [|discriminate].
+    destruct (IH _ _ H Hk) as [H1|[H1|H1]]; [| |right; right; right; exact H1];
+      destruct m as [cur w k]; destruct m1 as [cur1 w1 k1]; cbn [m_ctl] in *; subst k1;
+      destruct k; de e; ms_inv E; try (injection E as <- <-; discriminate); cbn; tauto.
+Qed.
+
+Theorem mon_cancel_after_unregister t m m' t1 k t2 : mrun t m = Some m' -> m_ctl m = PFresh ->
+  t = t1 ++ Cancel k :: t2 -> In RegRemove t1 /\ Forall deadP t2.
+Proof.
+  intros H Hm ->. apply mrun_split in H as (ma & mb & H1 & E & H2). apply mstep_cancel in E as [Ek ->].
+  split.
+  - destruct (mrun_reach_dead _ _ _ H1 (or_introl Ek)) as [?|[?|?]]; [congruence|congruence|assumption].
+  - destruct ma as [cur w k0]. cbn in Ek. subst k0. apply (mrun_from_dead _ _ _ _ H2).
+Qed.
+
+(** C05: the shape of a restart *)
+Lemma mstep_senq m e m' : senqP e -> mstep m e = Some m' -> m' = m.
+Proof. destruct m as [cur w k]. intros He H. destruct e; try contradiction; destruct k; ms_inv H; injection H as <-; reflexivity. Qed.
+
+Lemma mrun_reach_stoppedR : forall t m m', mrun t m = Some m' -> m_ctl m' = PStoppedR ->
+  (m' = m /\ Forall senqP t) \/
+  (exists t1 sd h, t = t1 ++ Recv (m_cur m') true LStopped sd :: h /\ Forall senqP h).
+Proof.
+  induction t as [|e t IH]; intros m m' H Hk; cbn [mrun] in H.
+  - injection H as <-. left. split; [reflexivity|constructor].
+  - destruct (mstep m e) as [m1|] eqn:E; [|discriminate].
+    destruct (IH _ _ H Hk) as [[Heq Ht]|(t1 & sd & h & -> & Hh)].
+    + subst m1. destruct m as [cur w k]. destruct m' as [cur1 w1 k1]. cbn [m_ctl m_cur] in *. subst k1.
+      destruct k; de e; ms_inv E. all: injection E as <- <-.
+      all: try (left; split; [reflexivity|constructor; [exact I|exact Ht]]).
+      all: right; apply andb_true_iff in Ec as [Ec _]; apply Nat.eqb_eq in Ec; subst.
+      all: exists [], sd, t; split; [reflexivity|exact Ht].
+    + right. exists (e :: t1), sd, h. split; [reflexivity|exact Hh].
+Qed.
+
+Lemma mrun_after_restarted t cur w m' : mrun t (MS cur w PRestarted) = Some m' ->
+  m_ctl m' = PRun \/ m_ctl m' = PDead ->
+  exists sd t', t = Sleep :: Produce (S cur) :: Recv (S cur) true LInit sd :: t'.
+Proof.
+  intros H Hk.
+  destruct t as [|e1 t]; cbn [mrun] in H; [injection H as <-; cbn in Hk; destruct Hk; discriminate|].
+  destruct (mstep _ e1) as [m1|] eqn:E1; [|discriminate]. de e1; ms_inv E1. injection E1 as <-.
+  destruct t as [|e2 t]; cbn [mrun] in H; [injection H as <-; cbn in Hk; destruct Hk; discriminate|].
+  destruct (mstep _ e2) as [m2|] eqn:E2; [|discriminate]. de e2; ms_inv E2. injection E2 as <-.
+  apply andb_true_iff in Ec as [Ec _]. apply Nat.eqb_eq in Ec. subst i.
+  destruct t as [|e3 t]; cbn [mrun] in H; [injection H as <-; cbn in Hk; destruct Hk; discriminate|].
+  destruct (mstep _ e3) as [m3|] eqn:E3; [|discriminate]. de e3; ms_inv E3. injection E3 as <-.
+  apply andb_true_iff in Ec as [Ec _]. apply Nat.eqb_eq in Ec. subst i.
+  exists sd, t. reflexivity.
+Qed.
+
+Theorem mon_restart_shape t m m' t1 n t2 : mrun t m = Some m' -> m_ctl m = PFresh ->
+  m_ctl m' = PRun \/ m_ctl m' = PDead ->
+  t = t1 ++ EvRestarted n :: t2 ->
+  exists t0 i sd h sd' t3,
+    t1 = t0 ++ Recv i true LStopped sd :: h /\ Forall senqP h /\
+    t2 = Sleep :: Produce (S i) :: Recv (S i) true LInit sd' :: t3.
+Proof.
+  intros H Hm Hk ->. apply mrun_split in H as (ma & mb & H1 & E & H2).
+  apply mstep_restarted in E as [Ek ->].
+  destruct (mrun_reach_stoppedR _ _ _ H1 Ek) as [[-> _]|(t0 & sd & h & -> & Hh)]; [congruence|].
+  destruct (mrun_after_restarted _ _ _ _ H2 Hk) as (sd' & t3 & ->).
+  exists t0, (m_cur ma), sd, h, sd', t3. repeat split. exact Hh.
+Qed.
+
+(** C06: what follows ActorMaxRestartsExceededEvent *)
+Lemma mrun_from_stoppedC : forall t cur w m', mrun t (MS cur w PStoppedC) = Some m' -> m_ctl m' = PDead ->
+  exists h t', t = h ++ RegRemove :: EvStopped :: t' /\ Forall senqP h /\ Forall deadP t'.
+Proof.
+  induction t as [|e t IH]; intros cur w m' H Hk; cbn [mrun] in H.
+  - injection H as <-. discriminate Hk.
+  - destruct (mstep _ e) as [m1|] eqn:E; [|discriminate]. de e; ms_inv E; injection E as <-.
+    + (* RegRemove *)
+      destruct t as [|e2 t]; cbn [mrun] in H; [injection H as <-; discriminate Hk|].
+      destruct (mstep _ e2) as [m2|] eqn:E2; [|discriminate]. de e2; ms_inv E2. injection E2 as <-.
+      exists [], t. split; [reflexivity|]. split; [constructor|]. apply (mrun_from_dead _ _ _ _ H).
+    + destruct (IH _ _ _ H Hk) as (h & t' & -> & Hh & Ht'). exists (Enq e :: h), t'.
+      split; [reflexivity|]. split; [constructor; [exact I|exact Hh]|exact Ht'].
+    + destruct (IH _ _ _ H Hk) as (h & t' & -> & Hh & Ht'). exists (Sent n :: h), t'.
+      split; [reflexivity|]. split; [constructor; [exact I|exact Hh]|exact Ht'].
+Qed.
+
+Theorem mon_after_max t m m' t1 t2 : mrun t m = Some m' ->
+  m_ctl m' = PRun \/ m_ctl m' = PDead ->
+  t = t1 ++ EvMaxRestarts :: t2 ->
+  m_ctl m' = PDead /\
+  exists i sd h t3, t2 = InboxStop :: Recv i true LStopped sd :: h ++ RegRemove :: EvStopped :: t3 /\
+                    Forall senqP h /\ Forall deadP t3.
+Proof.
+  intros H Hk ->. apply mrun_split in H as (ma & mb & _ & E & H2). apply mstep_max in E.
+  assert (Hf : final_ctl (m_ctl mb)) by (unfold final_ctl; rewrite E; tauto).
+  destruct (mrun_final _ _ _ H2 Hf) as [Hf' _].
+  assert (Hd : m_ctl m' = PDead).
+  { destruct Hk as [Hk|Hk]; [|exact Hk]. unfold final_ctl in Hf'. rewrite Hk in Hf'.
+    destruct Hf' as [?|[?|[?|[?|?]]]]; discriminate. }
+  split; [exact Hd|]. destruct mb as [cur w k]. cbn in E. subst k.
+  destruct t2 as [|e1 t2]; cbn [mrun] in H2; [injection H2 as <-; discriminate Hd|].
+  destruct (mstep _ e1) as [m1|] eqn:E1; [|discriminate]. de e1; ms_inv E1. injection E1 as <-.
+  destruct t2 as [|e2 t2]; cbn [mrun] in H2; [injection H2 as <-; discriminate Hd|].
+  destruct (mstep _ e2) as [m2|] eqn:E2; [|discriminate]. de e2; ms_inv E2. injection E2 as <-.
+  destruct (mrun_from_stoppedC _ _ _ _ H2 Hd) as (h & t3 & -> & Hh & Ht3).
+  exists i, sd, h, t3. repeat split; assumption.
+Qed.
+
+(** C04: the incarnation that is running has handled Started *)
+Lemma mrun_reach_run : forall t m m', mrun t m = Some m' -> m_ctl m' = PRun ->
+  ((m_ctl m = PRun \/ m_ctl m = PStartedH) /\ m_cur m = m_cur m' /\ dlv t = dlv t) \/
+  (exists t1 sd t2, t = t1 ++ Recv (m_cur m') true LStarted sd :: t2).
+Proof.
+  induction t as [|e t IH]; intros m m' H Hk; cbn [mrun] in H.
+  - injection H as <-. left. repeat split. left; exact Hk.
+  - destruct (mstep m e) as [m1|] eqn:E; [|discriminate].
+    destruct (IH _ _ H Hk) as [(Hk1 & Hc & _)|(t1 & sd & t2 & ->)].
+    + destruct m as [cur w k]. destruct m1 as [cur1 w1 k1]. cbn [m_ctl m_cur] in *. subst cur1.
+      destruct Hk1 as [-> | ->]; destruct k; de e; ms_inv E. all: injection E as <- <-.
+      all: try (left; repeat split; tauto).
+      all: right; apply andb_true_iff in Ec as [Ec _]; apply Nat.eqb_eq in Ec; subst.
+      all: exists [], sd, t; reflexivity.
+    + right. exists (e :: t1), sd, t2. reflexivity.
+Qed.
+
+(** ** The run-level theorems that follow from the monitor *)
+Lemma run_accept c f xs s t : stopped_safe c -> run f c xs = (s, t) -> out_of_fuel t = false ->
+  mrun t (MS 0 0 PFresh) = Some (mfin s) /\ opened s.
+Proof. intros Hs H Hf. apply (Run_mon c Hs xs). eapply run_sound; eassumption. Qed.
+
+Lemma mfin_ctl s : m_ctl (mfin s) = PRun \/ m_ctl (mfin s) = PDead.
+Proof. unfold mfin. destruct (dead s); cbn; tauto. Qed.
+
+Lemma opened_dead_gone s : opened s -> m_ctl (mfin s) = PDead -> gone s.
+Proof.
+  intros [[[Hd _] _]|Hg] H; [|exact Hg]. unfold mfin in H. rewrite Hd in H. discriminate H.
+Qed.
+
+(** C04: per incarnation Initialized, Started, user messages, at most one
+    Stopped, nothing afterwards; incarnations do not interleave *)
+Theorem C04_lifecycle_word_thm :
+  forall f c xs s t, stopped_safe c -> run f c xs = (s, t) -> out_of_fuel t = false ->
+  c04_word (recvs_of t) 0 0 = true.
+Proof.
+  intros f c xs s t Hs H Hf. destruct (run_accept _ _ _ _ _ Hs H Hf) as [Hm _].
+  exact (mrun_word _ _ _ Hm).
+Qed.
+
+Theorem C04_nothing_after_unregister_thm :
+  forall f c xs s t, stopped_safe c -> run f c xs = (s, t) -> out_of_fuel t = false ->
+  (forall t1 t2, t = t1 ++ RegRemove :: t2 -> Forall late_ev t2) /\
+  (forall t1 t2, t = t1 ++ InboxStop :: t2 -> Forall final_ev t2).
+Proof.
+  intros f c xs s t Hs H Hf. destruct (run_accept _ _ _ _ _ Hs H Hf) as [Hm _]. split; intros t1 t2 E.
+  - eapply mon_nothing_after_unregister; eassumption.
+  - eapply mon_nothing_after_inboxstop; eassumption.
+Qed.
+
+(** C05: Stopped to the failed incarnation, ActorRestartedEvent, the delay,
+    a fresh receiver, Initialized *)
+Theorem C05_restart_shape_thm :
+  forall f c xs s t, stopped_safe c -> run f c xs = (s, t) -> out_of_fuel t = false ->
+  forall t1 n t2, t = t1 ++ EvRestarted n :: t2 ->
+  exists t0 i sd h sd' t3,
+    t1 = t0 ++ Recv i true LStopped sd :: h /\ Forall senqP h /\
+    t2 = Sleep :: Produce (S i) :: Recv (S i) true LInit sd' :: t3.
+Proof.
+  intros f c xs s t Hs H Hf t1 n t2 E. destruct (run_accept _ _ _ _ _ Hs H Hf) as [Hm _].
+  eapply mon_restart_shape; [exact Hm|reflexivity|apply mfin_ctl|exact E].
+Qed.
+
+(** C06: the panic that exceeds the budget stops the actor cleanly *)
+Theorem C06_exceeding_stops_cleanly_thm :
+  forall f c xs s t, stopped_safe c -> run f c xs = (s, t) -> out_of_fuel t = false ->
+  forall t1 t2, t = t1 ++ EvMaxRestarts :: t2 ->
+  registered s = false /\ dead s = true /\ istatus_stopped s = true /\ queue s = [] /\
+  has_escaped t = false /\
+  exists i sd h t3, t2 = InboxStop :: Recv i true LStopped sd :: h ++ RegRemove :: EvStopped :: t3 /\
+                    Forall senqP h /\ Forall deadP t3.
+Proof.
+  intros f c xs s t Hs H Hf t1 t2 E. destruct (run_accept _ _ _ _ _ Hs H Hf) as [Hm Ho].
+  destruct (mon_after_max _ _ _ _ _ Hm (mfin_ctl s) E) as [Hd Hsh].
+  destruct (opened_dead_gone _ Ho Hd) as (H1 & H2 & H3 & H4).
+  repeat split; try assumption. eapply C05_contained_thm; eassumption.
+Qed.
+
+(* once unregistered, a send is a dead letter and a Stop/Poison is signalled at once *)
+Lemma C06_later_ops_thm (f : nat) (c : cfg) (s : pst) :
+  registered s = false -> istatus_stopped s = true ->
+  (forall n, ext_step (S f) c s (XSend n) = (s, [Sent n; EvDeadLetter (User n)])) /\
+  ext_step (S f) c s XPoison =
+    (upd_npill s (S (npill s)), [EvDeadLetter (Pill true (npill s)); Cancel (npill s)]) /\
+  ext_step (S f) c s XStop =
+    (upd_npill s (S (npill s)), [EvDeadLetter (Pill false (npill s)); Cancel (npill s)]).
+Proof.
+  intros Hr Hst. split; [|split].
+  - intros n. rewrite ext_step_eq. cbn [ext_pre]. unfold send_self. rewrite Hr. cbn [sent_of emsg app].
+    rewrite run_loop_S, Hst. reflexivity.
+  - rewrite ext_step_eq. cbn [ext_pre]. unfold poison_self. rewrite Hr.
+    rewrite run_loop_S. cbn [istatus_stopped upd_npill]. rewrite Hst. reflexivity.
+  - rewrite ext_step_eq. cbn [ext_pre]. unfold poison_self. rewrite Hr.
+    rewrite run_loop_S. cbn [istatus_stopped upd_npill]. rewrite Hst. reflexivity.
+Qed.
+
+(** C07: a Stop/Poison context is cancelled only after the target has handled
+    Stopped and has been unregistered *)
+Theorem C07_cancel_only_after_stopped_and_unregistered_thm :
+  forall f c xs s t, stopped_safe c -> run f c xs = (s, t) -> out_of_fuel t = false ->
+  early_cancels t = [] /\
+  (forall t1 k t2, t = t1 ++ Cancel k :: t2 -> In RegRemove t1 /\ Forall deadP t2).
+Proof.
+  intros f c xs s t Hs H Hf. destruct (run_accept _ _ _ _ _ Hs H Hf) as [Hm _]. split.
+  - eapply mon_no_early_cancel; exact Hm.
+  - intros t1 k t2 E. eapply mon_cancel_after_unregister; [exact Hm|reflexivity|exact E].
+Qed.
+
+(* ------------------------------------------------------------------ *)
+(** * D. Accounting: conservation of envelopes *)
+
+(** A key identifies what is being counted: the user payload [n] ([inl n]) or
+    the poison pill with cancel function [k] ([inr k]).  For a fixed key,
+    [nb t] counts its births in a trace (a [Sent], or the creation of a pill:
+    enqueued or dead-lettered at once), [no t] counts its disposals (a
+    delivery to Receive, a dead letter for a user message, a [Cancel]), and
+    [nk l] its occurrences in a list of envelopes.  The conservation law
+    [held before + births = disposals + held after] is proved for every
+    function of the model; at quiescence nothing is held. *)
+Definition key := (nat + nat)%type.
+
+Section Count.
+Variable x : key.
+
+Definition kx (p : payload) : nat :=
+  match x, p with
+  | inl n, User m => if n =? m then 1 else 0
+  | inr k, Pill _ j => if k =? j then 1 else 0
+  | _, _ => 0
+  end.
+Definition ku (e : env) : nat := match emsg e with User n => kx (User n) | _ => 0 end.
+Definition kp (e : env) : nat := match emsg e with Pill g k => kx (Pill g k) | _ => 0 end.
+Definition nk (l : list env) : nat := list_sum (map (fun e => kx (emsg e)) l).
+Definition nku (l : list env) : nat := list_sum (map ku l).
+Definition nkp (l : list env) : nat := list_sum (map kp l).
+
+Definition ev_born (e : event) : nat :=
+  match e with
+  | Sent n => kx (User n)
+  | Enq e => kp e
+  | EvDeadLetter (Pill g k) => kx (Pill g k)
+  | _ => 0
+  end.
+Definition ev_out (e : event) : nat :=
+  match e with
+  | Recv _ _ (LUser n) _ => kx (User n)
+  | EvDeadLetter (User n) => kx (User n)
+  | Cancel k => kx (Pill true k)
+  | _ => 0
+  end.
+Definition nb (t : list event) : nat := list_sum (map ev_born t).
+Definition no (t : list event) : nat := list_sum (map ev_out t).
+
+Lemma nk_app a b : nk (a ++ b) = nk a + nk b. Proof. unfold nk. rewrite map_app, list_sum_app. reflexivity. Qed.
+Lemma nku_app a b : nku (a ++ b) = nku a + nku b. Proof. unfold nku. rewrite map_app, list_sum_app. reflexivity. Qed.
+Lemma nkp_app a b : nkp (a ++ b) = nkp a + nkp b. Proof. unfold nkp. rewrite map_app, list_sum_app. reflexivity. Qed.
+Lemma nb_app a b : nb (a ++ b) = nb a + nb b. Proof. unfold nb. rewrite map_app, list_sum_app. reflexivity. Qed.
+Lemma no_app a b : no (a ++ b) = no a + no b. Proof. unfold no. rewrite map_app, list_sum_app. reflexivity. Qed.
+Lemma nb_cons e t : nb (e :: t) = ev_born e + nb t. Proof. reflexivity. Qed.
+Lemma no_cons e t : no (e :: t) = ev_out e + no t. Proof. reflexivity. Qed.
+Lemma nk_cons e l : nk (e :: l) = kx (emsg e) + nk l. Proof. reflexivity. Qed.
+Lemma nku_cons e l : nku (e :: l) = ku e + nku l. Proof. reflexivity. Qed.
+Lemma nkp_cons e l : nkp (e :: l) = kp e + nkp l. Proof. reflexivity. Qed.
+
+Lemma kx_split e : kx (emsg e) = ku e + kp e.
+Proof. unfold ku, kp. destruct (emsg e); lia. Qed.
+Lemma nk_split l : nk l = nku l + nkp l.
+Proof. induction l as [|e l IH]; [reflexivity|]. rewrite nk_cons, nku_cons, nkp_cons, kx_split. lia. Qed.
+Lemma kx_pill g g' k : kx (Pill g k) = kx (Pill g' k).
+Proof. reflexivity. Qed.
+
+Ltac cnt := rewrite ?nb_app, ?no_app, ?nk_app, ?nb_cons, ?no_cons, ?nk_cons; cbn [ev_born ev_out nb no nk map list_sum fold_right emsg].
+
+Lemma do_actions_cnt acts s s' t o : do_actions s acts = (s', t, o) ->
+  nk (queue s) + nb t = no t + nk (queue s').
+Proof.
+  apply (do_actions_rel (fun s t s' => nk (queue s) + nb t = no t + nk (queue s'))).
+  - intros. cbn [nb no map list_sum fold_right]. lia.
+  - intros s0 t1 s1 t2 s2 H1 H2. rewrite nb_app, no_app. lia.
+  - intros s0 n b. unfold send_self. destruct (registered s0); cbn [fst snd sent_of emsg app queue upd_queue];
+      rewrite ?nk_app, ?nb_cons, ?no_cons, ?nk_cons; cbn [ev_born ev_out nb no nk kp map list_sum fold_right emsg]; lia.
+  - intros s0 g. unfold poison_self. destruct (registered s0); cbn [fst snd queue upd_queue upd_npill];
+      rewrite ?nk_app, ?nb_cons, ?no_cons, ?nk_cons; cbn [ev_born ev_out nb no nk kp map list_sum fold_right emsg];
+      rewrite ?(kx_pill g true); lia.
+Qed.
+
+Definition lu (m : lmsg) : nat := match m with LUser n => kx (User n) | _ => 0 end.
+
+Lemma recv_cnt c s mw m s' t o : recv c s mw m = (s', t, o) ->
+  nk (queue s) + nb t + lu m = no t + nk (queue s').
+Proof.
+  intros H. apply recv_inv in H as (ta & -> & H). apply do_actions_cnt in H.
+  rewrite nb_cons, no_cons. cbn [ev_born]. replace (ev_out (Recv (inc s) mw m (csender s))) with (lu m) by (destruct m; reflexivity).
+  lia.
+Qed.
+
+Lemma invoke_msg_cnt c s e s' t o : invoke_msg c s e = (s', t, o) ->
+  nk (queue s) + nb t + ku e = no t + nk (queue s').
+Proof.
+  unfold invoke_msg, ku. destruct (emsg e).
+  - intros H. apply recv_cnt in H. exact H.
+  - intros [= <- <- <-]. cbn. lia.
+Qed.
+
+Lemma discard_cnt e : nb (discard e) = 0 /\ no (discard e) = kx (emsg e).
+Proof.
+  unfold discard. destruct (emsg e) as [n|g k]; cbn [nb no map list_sum fold_right ev_born ev_out];
+    try change (kx (Pill g k)) with (kx (Pill true k)); split; lia.
+Qed.
+Lemma flat_discard_cnt l : nb (flat_map discard l) = 0 /\ no (flat_map discard l) = nk l.
+Proof.
+  induction l as [|e l [IH1 IH2]]; [split; reflexivity|]. cbn [flat_map]. rewrite nb_app, no_app, nk_cons.
+  destruct (discard_cnt e) as [-> ->]. lia.
+Qed.
+Lemma discard_rest_cnt g l : nb (discard_rest g l) = 0 /\ no (discard_rest g l) = if g then nkp l else nk l.
+Proof.
+  unfold discard_rest. induction l as [|e l [IH1 IH2]]; [destruct g; split; reflexivity|].
+  cbn [flat_map]. rewrite nb_app, no_app, nk_cons, nkp_cons, IH1, IH2.
+  pose proof (discard_cnt e) as [H1 H2]. pose proof (kx_split e) as Hx.
+  destruct (emsg e) as [n|g0 k] eqn:Ee; cbv beta iota.
+  - assert (Hp : kp e = 0) by (unfold kp; rewrite Ee; reflexivity).
+    destruct g; [cbn [nb no map list_sum fold_right]|rewrite H1, H2]; split; lia.
+  - assert (Hu : ku e = 0) by (unfold ku; rewrite Ee; reflexivity).
+    rewrite H1, H2. destruct g; split; lia.
+Qed.
+
+Definition ko (k : option nat) : nat := match k with Some k => kx (Pill true k) | None => 0 end.
+
+Lemma cleanup_cnt c s k s' t : cleanup c s k = (s', t, Normal) ->
+  nk (queue s) + nb t + ko k = no t /\ queue s' = [] /\ mbuf s' = mbuf s.
+Proof.
+  intros H. apply cleanup_normal_inv in H as (s1 & t1 & E & -> & ->).
+  pose proof (recv_quiet _ _ _ _ _ _ E) as [_ (_&_&Hm&_)]. apply recv_cnt in E. cbn [queue upd_istopped upd_dead lu] in E.
+  split; [|split; [reflexivity|exact Hm]].
+  rewrite nb_cons, no_cons, nb_app, no_app, !nb_cons, !no_cons, nb_app, no_app.
+  destruct (flat_discard_cnt (queue s1)) as [-> ->]. cbn [ev_born ev_out].
+  destruct k; cbn [ko nb no map list_sum fold_right ev_born ev_out]; lia.
+Qed.
+
+Lemma drain_cnt c : forall l s n sk s' t o np sk', drain c s l n sk = (s', t, o, np, sk') ->
+  n <= np /\ np <= n + length l /\ (o = Normal -> np = n + length l) /\
+  nk sk' = nk sk + nkp (firstn (np - n) l) /\
+  nk (queue s) + nb t + nku (firstn (np - n) l) = no t + nk (queue s').
+Proof.
+  induction l as [|e l IH]; intros s n sk s' t o np sk' H; cbn [drain] in H.
+  - injection H as <- <- <- <- <-. rewrite Nat.sub_diag. cbn. repeat split; lia.
+  - destruct (emsg e) eqn:Ee.
+    + destruct (invoke_msg c s e) as [[s1 t1] o1] eqn:E1. apply invoke_msg_cnt in E1. destruct o1.
+      * destruct (drain c s1 l (S n) sk) as [[[[s2 t2] o2] np2] sk2] eqn:E2. injection H as <- <- <- <- <-.
+        apply IH in E2 as (H1 & H2 & H3 & H4 & H5).
+        replace (np2 - n) with (S (np2 - S n)) by lia. cbn [firstn length]. rewrite nku_cons, nkp_cons, nb_app, no_app.
+        assert (kp e = 0) as -> by (unfold kp; rewrite Ee; reflexivity).
+        repeat split; try lia. intros Ho. specialize (H3 Ho). lia.
+      * injection H as <- <- <- <- <-. replace (S n - n) with 1 by lia. cbn [firstn length]. rewrite nku_cons, nkp_cons.
+        assert (kp e = 0) as -> by (unfold kp; rewrite Ee; reflexivity). cbn.
+        repeat split; try lia. discriminate.
+    + apply IH in H as (H1 & H2 & H3 & H4 & H5).
+      replace (np - n) with (S (np - S n)) by lia. cbn [firstn length]. rewrite nku_cons, nkp_cons.
+      rewrite nk_app in H4. cbn in H4.
+      assert (ku e = 0) as -> by (unfold ku; rewrite Ee; reflexivity).
+      assert (kx (emsg e) = kp e) as Hk by (rewrite kx_split; unfold ku; rewrite Ee; lia).
+      repeat split; try lia. intros Ho. specialize (H3 Ho). lia.
+Qed.
+
+Lemma nk_firstn_skipn j l : nk l = nk (firstn j l) + nk (skipn j l).
+Proof. rewrite <- nk_app, firstn_skipn. reflexivity. Qed.
+
+Lemma invoke_loop_cnt c (Hs : stopped_safe c) : forall l s n s' t o np d, invoke_loop c s l n = (s', t, o, np, d) ->
+  n <= np /\
+  nk (queue s) + nb t + nk l =
+    no t + nk (queue s') + match o with Normal => 0 | _ => nk d + nk (skipn (np - n) l) end.
+Proof.
+  induction l as [|e l IH]; intros s n s' t o np d H; cbn [invoke_loop] in H.
+  - injection H as <- <- <- <- <-. split; [lia|reflexivity].
+  - destruct (emsg e) eqn:Ee.
+    + assert (Hke : kx (emsg e) = ku e) by (rewrite kx_split; unfold kp; rewrite Ee; lia).
+      destruct (invoke_msg c s e) as [[s1 t1] o1] eqn:E1. apply invoke_msg_cnt in E1. destruct o1.
+      * destruct (invoke_loop c s1 l (S n)) as [[[[s2 t2] o2] np2] d2] eqn:E2. injection H as <- <- <- <- <-.
+        apply IH in E2 as [H1 H2]. split; [lia|]. rewrite nb_app, no_app, nk_cons.
+        replace (np2 - n) with (S (np2 - S n)) by lia. cbn [skipn]. lia.
+      * injection H as <- <- <- <- <-. split; [lia|]. replace (S n - n) with 1 by lia. cbn [skipn].
+        rewrite nk_cons. cbn [nk map list_sum fold_right]. lia.
+    + assert (Hke : kx (emsg e) = ko (Some k)) by (rewrite Ee; reflexivity).
+      destruct graceful.
+      * destruct (drain c s l (S n) []) as [[[[s1 t1] o1] np1] sk1] eqn:E1.
+        apply drain_cnt in E1 as (D1 & D2 & D3 & D4 & D5). destruct o1.
+        -- destruct (cleanup c s1 (Some k)) as [[s2 t2] o2] eqn:E2.
+           pose proof (cleanup_safe _ _ _ _ _ _ Hs E2) as ->. apply cleanup_cnt in E2 as (C1 & C2 & _).
+           injection H as <- <- <- <- <-. split; [lia|]. rewrite !nb_app, !no_app, nk_cons, C2.
+           destruct (discard_rest_cnt true l) as [-> ->]. specialize (D3 eq_refl).
+           replace (np1 - S n) with (length l) in D5 by lia. rewrite firstn_all in D5.
+           rewrite (nk_split l). cbn [nk map list_sum fold_right]. lia.
+        -- injection H as <- <- <- <- <-. split; [lia|]. rewrite nk_cons.
+           replace (np1 - n) with (S (np1 - S n)) by lia. cbn [skipn]. rewrite nk_cons.
+           rewrite (nk_firstn_skipn (np1 - S n) l), (nk_split (firstn (np1 - S n) l)).
+           cbn [nk map list_sum fold_right] in D4. lia.
+      * destruct (cleanup c s (Some k)) as [[s2 t2] o2] eqn:E2.
+        pose proof (cleanup_safe _ _ _ _ _ _ Hs E2) as ->. apply cleanup_cnt in E2 as (C1 & C2 & _).
+        injection H as <- <- <- <- <-. split; [lia|]. cbn [app]. rewrite !nb_app, !no_app, nk_cons, C2.
+        destruct (discard_rest_cnt false l) as [-> ->]. cbn [nk map list_sum fold_right]. lia.
+Qed.
+
+Theorem safe_cnt c (Hs : stopped_safe c) :
+  (forall s msgs s' t, Invoke_s c s msgs s' t -> nk (queue s) + nb t + nk msgs = no t + nk (queue s')) /\
+  (forall s s' t, Start_s c s s' t -> nk (queue s) + nb t + nk (mbuf s) = no t + nk (queue s')) /\
+  (forall s b s' t, Restart_s c s b s' t -> nk (queue s) + nb t + nk (mbuf s) = no t + nk (queue s')).
+Proof.
+  apply safe_mutind.
+  - intros s msgs s' t np d El. apply (invoke_loop_cnt c Hs) in El as [_ H]. lia.
+  - intros s msgs s1 t1 b np d s' t2 El _ IH. apply (invoke_loop_cnt c Hs) in El as [_ H].
+    cbn [queue mbuf upd_mbuf] in IH. unfold rbuf in IH. rewrite nk_app in IH. rewrite Nat.sub_0_r in H.
+    rewrite nb_app, no_app. lia.
+  - intros s si ti b s' t' Ei _ IH.
+    pose proof (recv_quiet _ _ _ _ _ _ Ei) as [_ (_&_&Hm&_)]. apply recv_cnt in Ei.
+    cbn [queue mbuf upd_inc lu] in Ei, Hm. rewrite nb_cons, nb_app, no_cons, no_app. cbn [ev_born ev_out]. rewrite <- Hm. lia.
+  - intros s si ti s2 ts b s' t' Ei Es _ IH.
+    pose proof (recv_quiet _ _ _ _ _ _ Ei) as [_ (_&_&Hm&_)]. apply recv_cnt in Ei.
+    pose proof (recv_quiet _ _ _ _ _ _ Es) as [_ (_&_&Hm2&_)]. apply recv_cnt in Es.
+    cbn [queue mbuf upd_inc lu] in Ei, Hm, Es. rewrite nb_cons, nb_app, nb_cons, nb_app, no_cons, no_app, no_cons, no_app.
+    cbn [ev_born ev_out]. rewrite <- Hm, <- Hm2. lia.
+  - intros s si ti s2 ts Ei Es Hb.
+    pose proof (recv_quiet _ _ _ _ _ _ Ei) as [_ (_&_&Hm&_)]. apply recv_cnt in Ei.
+    pose proof (recv_quiet _ _ _ _ _ _ Es) as [_ (_&_&Hm2&_)]. apply recv_cnt in Es.
+    cbn [queue mbuf upd_inc lu] in Ei, Hm, Es. rewrite nb_cons, nb_app, nb_cons, nb_app, nb_cons, no_cons, no_app, no_cons, no_app, no_cons.
+    cbn [ev_born ev_out]. rewrite <- Hm, <- Hm2, Hb.
+    unfold start_end. destruct (dead s2); cbn [fst snd queue upd_istopped nb no nk map list_sum fold_right ev_born ev_out]; lia.
+  - intros s si ti s2 ts s3 t3 Ei Es Hb _ IH.
+    pose proof (recv_quiet _ _ _ _ _ _ Ei) as [_ (_&_&Hm&_)]. apply recv_cnt in Ei.
+    pose proof (recv_quiet _ _ _ _ _ _ Es) as [_ (_&_&Hm2&_)]. apply recv_cnt in Es.
+    cbn [queue mbuf upd_inc lu] in Ei, Hm, Es.
+    rewrite nb_cons, nb_app, nb_cons, nb_app, nb_cons, nb_app, no_cons, no_app, no_cons, no_app, no_cons, no_app.
+    cbn [ev_born ev_out]. rewrite <- Hm, <- Hm2.
+    unfold start_end. destruct (dead (upd_mbuf s3 [])); cbn [fst snd queue upd_istopped upd_mbuf nb no nk map list_sum fold_right ev_born ev_out]; lia.
+  - intros s s1 t1 s' t' E1 _ IH.
+    pose proof (recv_quiet _ _ _ _ _ _ E1) as [_ (_&_&Hm&_)]. apply recv_cnt in E1. cbn [lu] in E1.
+    rewrite nb_app, nb_cons, no_app, no_cons. cbn [ev_born ev_out]. rewrite <- Hm. lia.
+  - intros s s1 t1 Hmax E1. apply cleanup_cnt in E1 as (C1 & C2 & C3).
+    rewrite nb_cons, nb_app, no_cons, no_app. destruct (flat_discard_cnt (mbuf s1)) as [-> ->].
+    cbn [ev_born ev_out queue upd_mbuf ko] in *. rewrite C2, C3. cbn [nk map list_sum fold_right]. lia.
+  - intros s s1 t1 s' t3 Hne E1 _ IH.
+    pose proof (recv_quiet _ _ _ _ _ _ E1) as [_ (_&_&Hm&_)]. apply recv_cnt in E1. cbn [lu] in E1.
+    cbn [queue mbuf upd_restarts] in IH.
+    rewrite nb_app, !nb_cons, no_app, !no_cons. cbn [ev_born ev_out]. rewrite <- Hm. lia.
+Qed.
+
+Lemma RunLoop_cnt c (Hs : stopped_safe c) s s' t : RunLoop_s c s s' t ->
+  nk (queue s) + nb t = no t + nk (queue s').
+Proof.
+  induction 1 as [s E|s E Eq|s s1 t1 s2 t2 E Eq Hi _ IH]; try reflexivity.
+  apply (proj1 (safe_cnt c Hs)) in Hi. cbn [queue upd_queue] in Hi.
+  rewrite (nk_firstn_skipn (batch c) (queue s)), nb_app, no_app. lia.
+Qed.
+
+Lemma ext_pre_cnt s x s1 t1 : ext_pre s x = (s1, t1) -> nk (queue s) + nb t1 = no t1 + nk (queue s1).
+Proof.
+  destruct x; cbn [ext_pre]; unfold send_self, poison_self; destruct (registered s); intros [= <- <-];
+    cbn [sent_of emsg app queue upd_queue upd_npill];
+    rewrite ?nk_app, ?nb_cons, ?no_cons, ?nk_cons; cbn [ev_born ev_out nb no nk kp map list_sum fold_right emsg]; lia.
+Qed.
+
+Lemma Exts_cnt c (Hs : stopped_safe c) s xs s' t : Exts_s c s xs s' t ->
+  nk (queue s) + nb t = no t + nk (queue s').
+Proof.
+  induction 1 as [s|s x s1 t1 s2 t2 xs s3 t3 Ep Hl _ IH]; [reflexivity|].
+  apply ext_pre_cnt in Ep. apply (RunLoop_cnt c Hs) in Hl. rewrite !nb_app, !no_app. lia.
+Qed.
+
+Theorem Run_cnt c (Hs : stopped_safe c) xs s t : Run_s c xs s t -> nb t = no t + nk (queue s).
+Proof.
+  intros [s0 t0 s1 t1 s2 t2 H0 H1 H2].
+  apply (proj1 (proj2 (safe_cnt c Hs))) in H0. apply (RunLoop_cnt c Hs) in H1. apply (Exts_cnt c Hs) in H2.
+  cbn [queue mbuf init_pst nk map list_sum fold_right] in H0. rewrite !nb_app, !no_app. lia.
+Qed.
+
+End Count.
